@@ -3,6 +3,7 @@
 from __future__ import annotations
 
 import ast
+import re
 import typing as t
 
 from .. import astq
@@ -16,30 +17,39 @@ from .. import guards as G
 LEVEL_TEXT = (
     "Static decision of structural clauses of C19 on /repo's current source (serving.py): (R19.1) the response writer "
     "switches chunked framing on only under a guard that excludes a Content-Length header (compared in the case the "
-    "header names were folded to), HEAD, every 1xx status, 204 and 304 (the guard atoms are evaluated over all status "
-    "codes 100-599; a guard that calls a side-effect-free predicate helper - a nested function or handler method made only of "
+    "header names were folded to: a membership test in a set / list / dict of the folded names - filled in the loop that sends the pairs or "
+    "built by a comprehension over the headers sent -, an any() search, or a boolean flag set in that loop under `<name>.lower() == 'content-length'`), "
+    "HEAD, every 1xx status, 204 and 304 (the guard atoms are evaluated over all status "
+    "codes 100-599, module-level constants folded; a guard that calls a side-effect-free predicate helper - a nested function or handler method made only of "
     "`if` / `return` - is replaced by the helper's condition) and requires protocol HTTP/1.1, and `Transfer-Encoding: chunked` is sent under exactly that guard, "
     "before end_headers; (R19.2) on every path through write() the bytes put on the wire are `hex(len) CRLF data CRLF` "
-    "for non-empty data under chunking, the data alone otherwise, and nothing for an empty piece; the last-chunk "
+    "for non-empty data under chunking, the data alone otherwise, and nothing for an empty piece (pieces may be collected in a local list "
+    "that is joined with b'' or handed to writelines); the last-chunk "
     "`0 CRLF CRLF` is written once, after the iteration and after the headers were forced out, only under chunking; "
-    "status and every header pair reach send_response / send_header unfiltered, and the test that guards the status line / "
+    "status (int of the first token of a split / partition, however indexed) and every header pair (`for k, v in H: send_header(k, v)`, `for h in H: send_header(*h)` / `(h[0], h[1])`) reach send_response / send_header unfiltered, and the test that guards the status line / "
     "header block is a latch that the block closes with a constant or a value established as non-None / truthy by a "
     "dominating assert or guard - never by the truthiness of application data; (R19.3) the chunk-size reader turns "
-    "every parse failure and a negative size into OSError and parses base 16; DechunkedInput.readinto reads a chunk "
-    "header only when the previous chunk and its terminator are consumed, consumes the terminator exactly when the "
-    "residual length reaches zero, raises OSError unless it is a line terminator, sets the end flag only on a freshly "
-    "read zero size, and on every path of one loop iteration the residual length decreases by exactly the number of "
-    "bytes requested from the stream, stored at the fill position and added to the returned count, never asking for more "
-    "than the residual length or the free space; every buffer store must be length-exact (private methods of the "
+    "every parse failure and a negative size into OSError (in the reader itself, or around / right after every call of it in readinto) and parses base 16; DechunkedInput.readinto reads a chunk "
+    "header only when the previous chunk and its terminator are consumed (a size kept in a local until it is stored is followed when it is stored on every path and nothing in between touches the state), consumes the terminator exactly when the "
+    "residual length reaches zero, raises OSError unless it is a line terminator (decided by following the CFG from the read for sample lines: CRLF and LF continue, "
+    "every other sample - the empty line included - ends in raise OSError), sets the end flag only on a freshly "
+    "read zero size (`= True` under a guard, or `= <test of the residual length>`), and on every path of one loop iteration the residual length decreases by exactly the number of "
+    "bytes requested from the stream, stored at the fill position and added to the returned count (a local or an arithmetic expression over locals such as `size - free`), never asking for more "
+    "than the residual length or the free space (linear arithmetic over the path: loop-invariant locals bound before the loop such as `size = len(buf)` / a memoryview of the buffer, min / max also spelled as conditional "
+    "expressions, tuple assignments, walrus bindings, the loop guard and every comparison on the path as facts); every buffer store must be length-exact (private methods of the "
     "de-chunker that readinto calls as statements, and single-expression predicates, are inlined one level; a helper "
-    "with early returns is followed only if it does nothing but read and validate the terminator); (R19.4) make_environ sets "
-    "wsgi.input_terminated under exactly the guard under which it wraps wsgi.input in DechunkedInput, skips header names "
+    "with early returns is followed only if it does nothing but read and validate the terminator); (R19.4) make_environ splits the request target with urlsplit, sets "
+    "wsgi.input_terminated under exactly the guard under which it wraps wsgi.input in DechunkedInput (the same guard edges, or two guards that admit the same sample header values), skips header names "
     "containing '_', leaves CONTENT_TYPE / CONTENT_LENGTH unprefixed, prefixes and comma-joins the others (decided by "
     "evaluating every path of one loop iteration on sample header names - generic, underscore, Content-Type/-Length "
-    "spellings and every name derived from a string constant of the loop - with the value and the earlier environ "
-    "content symbolic; an undecidable condition is followed on both edges), looks Transfer-Encoding up after the header "
-    "loop and de-chunks for 'chunked' in any letter case but not for '' / 'gzip' / 'identity', unquotes the "
-    "path (re-attaching a '//' first segment) and only re-encodes the query; (R19.5) the premise under R19.3 and under "
+    "spellings and every name derived from a string constant of the loop or of a pure helper it calls - with the value and the earlier environ "
+    "content symbolic; pure helper functions / handler methods made of assignments, `if` and `return` are evaluated on their arguments; a filter or a mapping in a generator / list comprehension over self.headers.items() is moved into the loop; "
+    "a condition that does not depend on the header is followed on both edges, one on the header's own name / value that cannot be decided is an analysis error); the loop may fill a local dict instead, "
+    "provided that dict starts empty, is changed by the loop only and is merged into the environ once after the loop on every path (update / `|=` / `{**environ, **d}` / `|` / dict(environ, **d) / `**d` in the literal) with the received header winning "
+    "or no earlier environ key in the header key space; looks Transfer-Encoding up after the header "
+    "loop (after the merge) and de-chunks for 'chunked' in any letter case but not for '' / 'gzip' / 'identity' / no header (lookups by get / subscript / `in`, through hoisted locals and `try: ... except KeyError` defaults), unquotes the "
+    "path and only re-encodes the query, values held in locals followed to their definitions; the raw path is decided by evaluating every path from the entry to the unquote call on sample URL components "
+    "(scheme and netloc empty / non-empty): '/' + netloc + path exactly when there is no scheme but a netloc, the path alone otherwise; statement helpers that are methods of the handler are inlined one level; (R19.5) the premise under R19.3 and under "
     "exact Content-Length reads - `rfile.read(n)` returns fewer than n bytes only at end of stream - holds for the stream "
     "the handler hands on: no class of the package in the request handler's hierarchy (bases and subclasses), no "
     "attribute store / setattr / class namespace anywhere in the package binds `rbufsize` (the size "
@@ -48,7 +58,7 @@ LEVEL_TEXT = (
     "buffering, io.BufferedReader; never socket.SocketIO, `.raw`, `.detach()`), a setup() override runs the inherited "
     "setup() on every path, and the connection stays blocking (`timeout` not 0, no setblocking(False) / settimeout(0) in "
     "the handler).  It decides these clauses on all paths of "
-    "the named functions; handler classes supplied by the caller of make_server / run_simple, socket options set outside "
+    "the named functions; a shape outside what is described here ends in an analysis error, not in a verdict; handler classes supplied by the caller of make_server / run_simple, socket options set outside "
     "the handler classes, other socket-level behaviour, http.server's own parsing and byte equality of whole exchanges are not decided."
 )
 TRUSTED = [
@@ -274,10 +284,38 @@ def run(ctx: Ctx) -> None:
     if rw is None or me is None:
         raise AnalysisError("WSGIRequestHandler.run_wsgi / make_environ missing")
     ctx.saw(rw, me)
+    rw = _inline_own_helpers(ctx, rw, handler)
+    me = _inline_own_helpers(ctx, me, handler)
     _response_rules(ctx, rw)
     dech = _environ_rules(ctx, me)
     _dechunker_rules(ctx, dech)
     H.StreamPremise(ctx, handler, "R19.5").run()
+
+
+# methods of http.server.BaseHTTPRequestHandler / socketserver.StreamRequestHandler: API, never a helper of this code base
+HANDLER_API = {
+    "handle", "handle_one_request", "handle_expect_100", "send_error", "send_response", "send_response_only", "send_header",
+    "end_headers", "flush_headers", "log_request", "log_error", "log_message", "version_string", "date_time_string",
+    "log_date_time_string", "address_string", "parse_request", "setup", "finish",
+}
+
+
+def _inline_own_helpers(ctx: Ctx, fi: FuncInfo, handler: ClassInfo) -> FuncInfo:
+    """logic moved into a method of the handler: `self._h(a, b)` as a statement (the method has no `return <value>`) is
+    replaced by the method's body, one level, also inside nested functions (see _c19_helpers.inline_methods).  The
+    function is returned unchanged when it calls no such method."""
+    def trivial(fn: ast.AST) -> bool:  # a hook with an empty body: nothing to follow
+        return all(isinstance(st, ast.Pass) or (isinstance(st, ast.Expr) and isinstance(st.value, ast.Constant)) for st in fn.body)  # type: ignore[attr-defined]
+
+    own = {nm: m.node for nm, m in handler.methods.items() if nm not in HANDLER_API and nm not in ("make_environ", "run_wsgi") and isinstance(m.node, ast.FunctionDef) and not trivial(m.node)}
+    called = {st.value.func.attr for st in ast.walk(fi.node) if isinstance(st, ast.Expr) and isinstance(st.value, ast.Call) and isinstance(st.value.func, ast.Attribute) and is_self_attr(st.value.func) and st.value.func.attr in own}
+    if not called:
+        return fi
+    node, inlined = H.inline_methods(fi.node, own, nested=True)
+    if not inlined:
+        return fi
+    ctx.saw(*[handler.methods[nm] for nm in sorted(inlined)])
+    return FuncInfo(fi.module, node, fi.qualname, fi.cls)
 
 
 # =====================================================================
@@ -346,7 +384,8 @@ def _response_rules(ctx: Ctx, rw: FuncInfo) -> None:
         G = _expanded_guards(wcfg, rdw, fnode, widen=tested, helpers=pred_helpers)
         gtxt = sorted(f"{norm(t_.ast) if t_.kind == 'test' else t_.text()}:{l}" for t_, l in G)
         # status classes
-        adm, atoms = H.admitted(G, is_code, range(100, 600))
+        fold_w = _folder_of(ctx, wfi)
+        adm, atoms = H.admitted(G, is_code, range(100, 600), fold=fold_w)
         adm_s = set(adm)
         desc = f"status atoms {[norm(a.ast) + ':' + l for a, l in atoms]}; chunking admitted for {_ranges(adm)}"
         for what, bad in (("any 1xx status", set(range(100, 200))), ("204", {204}), ("304", {304})):
@@ -357,23 +396,31 @@ def _response_rules(ctx: Ctx, rw: FuncInfo) -> None:
         ctx.ob("R19.1", "the status tested is the status sent", same, f"`{code_name}` at send_response and at the decision have the same definitions: {same}", wfi, fnode.ast, "decision code is sent code")
         # HEAD
         # a Subscript/Call matcher must not also match its own children
-        madm, matoms = H.admitted(G, is_method, ["GET", "HEAD", "POST", "OPTIONS"])
+        madm, matoms = H.admitted(G, is_method, ["GET", "HEAD", "POST", "OPTIONS"], fold=fold_w)
         ctx.ob("R19.1", "no chunked framing for HEAD", bool(matoms) and "HEAD" not in madm and "GET" in madm, f"method atoms {[norm(a.ast) + ':' + l for a, l in matoms]}; admitted methods {madm}", wfi, fnode.ast, "chunk decision excludes HEAD")
         # protocol
-        padm, patoms = H.admitted(G, is_proto, ["HTTP/0.9", "HTTP/1.0", "HTTP/1.1"])
+        padm, patoms = H.admitted(G, is_proto, ["HTTP/0.9", "HTTP/1.0", "HTTP/1.1"], fold=fold_w)
         ctx.ob("R19.1", "chunked framing only when the server speaks HTTP/1.1", bool(patoms) and padm == ["HTTP/1.1"], f"protocol atoms {[norm(a.ast) + ':' + l for a, l in patoms]}; admitted {padm}", wfi, fnode.ast, "chunk decision requires HTTP/1.1")
         # Content-Length
         cl = []
+        flags = []
         for t_, l in G:
             a = t_.ast
-            if isinstance(a, ast.Compare) and len(a.ops) == 1 and isinstance(a.ops[0], (ast.In, ast.NotIn)) and (_const_str(a.left) or "").lower() == "content-length" and isinstance(a.comparators[0], ast.Name):
+            if isinstance(a, ast.Compare) and len(a.ops) == 1 and isinstance(a.ops[0], (ast.In, ast.NotIn)) and (_const_str(a.left) or "").lower() == "content-length":
                 if (isinstance(a.ops[0], ast.In) and l == "F") or (isinstance(a.ops[0], ast.NotIn) and l == "T"):
                     cl.append(t_)
+            elif isinstance(a, ast.Name) and l == "F":  # `not has_length`: a flag set while the headers are sent
+                via = wcfg.nodes[t_.id] if not isinstance(t_, Node) else t_
+                fl_ = _content_length_flag(a, via, wfi, wcfg, rdw)
+                if fl_ is not None:
+                    flags.append((t_, fl_))
         # the same test spelled as a search: `not any(k.lower() == "content-length" for k, v in <the headers sent>)`
         searches = [(t_, s_) for t_, l in G if (s_ := _content_length_search(t_.ast, l, wfi)) is not None]
-        ctx.ob("R19.1", "no chunked framing when the application set Content-Length", bool(cl) or bool(searches), f"dominating guards {gtxt}", wfi, fnode.ast, "chunk decision excludes Content-Length")
+        ctx.ob("R19.1", "no chunked framing when the application set Content-Length", bool(cl) or bool(searches) or bool(flags), f"dominating guards {gtxt}", wfi, fnode.ast, "chunk decision excludes Content-Length")
         for t_ in cl:
             _content_length_set(ctx, wfi, wcfg, rdw, t_)
+        for t_, (okf, factf) in flags:
+            ctx.ob("R19.1", "the Content-Length test sees every header name sent, in the case it compares with", okf, factf, wfi, t_.ast, "content-length test case folding")
         for t_, (oks, facts) in searches:
             ctx.ob("R19.1", "the Content-Length test sees every header name sent, in the case it compares with", oks, facts, wfi, t_.ast, "content-length test case folding")
         # Transfer-Encoding header
@@ -397,10 +444,15 @@ def _response_rules(ctx: Ctx, rw: FuncInfo) -> None:
     for sn in starters:
         sp = [a.arg for a in sn.args.args]
         for s in walk_no_nested(sn):
-            if isinstance(s, ast.Assign) and isinstance(s.value, ast.Name) and s.value.id in sp:
-                for tg in s.targets:
-                    if isinstance(tg, ast.Name):
-                        carried[tg.id] = sp.index(s.value.id)
+            if not isinstance(s, ast.Assign):
+                continue
+            pairs_ = [(tg, s.value) for tg in s.targets if isinstance(tg, ast.Name)]
+            for tg in s.targets:
+                if isinstance(tg, (ast.Tuple, ast.List)) and isinstance(s.value, (ast.Tuple, ast.List)) and len(tg.elts) == len(s.value.elts):
+                    pairs_ += [(e, v) for e, v in zip(tg.elts, s.value.elts) if isinstance(e, ast.Name)]
+            for tg, v in pairs_:
+                if isinstance(v, ast.Name) and v.id in sp:
+                    carried[tg.id] = sp.index(v.id)  # type: ignore[attr-defined]
     ctx.ob("R19.2", "start_response hands back the same writer (write() callable gets the same framing)", len(starters) == 1 and {0, 1} <= set(carried.values()), f"functions returning {wnode.name}: {[n.name for n in starters]}; parameters kept: {carried}", rw, starters[0] if starters else rw.node, "start_response returns writer")
 
     def origin(node: Node, name: str, depth: int = 0) -> set[str]:
@@ -419,38 +471,44 @@ def _response_rules(ctx: Ctx, rw: FuncInfo) -> None:
     loops = [n for n in walk_no_nested(wnode) if isinstance(n, ast.For)]
     hdr_loops = []
     for lp in loops:
-        tnames = [e.id for e in ast.walk(lp.target) if isinstance(e, ast.Name)]
+        parts_ = _pair_parts(lp)
         for c in astq.calls(lp, nested=False):
-            if _self_call(c, "send_header") and len(c.args) == 2 and [norm(a) for a in c.args] == tnames[:2] and len(tnames) == 2:
+            # the loop's pair in order, or its two components in some other arrangement (reported below)
+            if _self_call(c, "send_header") and (_sends_pair(c, lp) or (parts_ is not None and len(c.args) == 2 and not c.keywords and {norm(a) for a in c.args} <= set(parts_))):
                 hdr_loops.append((lp, c))
     if not hdr_loops:
+        other = [c for lp in loops for c in astq.calls(lp, nested=False) if _self_call(c, "send_header")]
+        if other:
+            raise AnalysisError(f"writer: `{norm(other[0])}` inside a loop: how it relates to the loop's items is not followed")
         ctx.ob("R19.2", "every header pair of the application is sent, unfiltered and unchanged", False, "no loop passes its (name, value) pair to send_header", wfi, wfi.node, "header loop unfiltered")
     for lp, c in hdr_loops:
         ln = wcfg.node_of(lp)
         cn = wcfg.node_of(c)
         inner = {id(x) for s in lp.body for x in ast.walk(s)}
         filt = [f"{norm(t_.ast)}:{l}" for t_, l in wcfg.guards(cn) if id(t_.ast) in inner]  # type: ignore[arg-type]
-        unchanged = all(all(d.kind == "for" for d in rdw.reaching(cn, a.id)) for a in c.args if isinstance(a, ast.Name))  # type: ignore[arg-type]
+        unchanged = all(all(d.kind == "for" for d in rdw.reaching(cn, x.id)) for a in c.args for x in ast.walk(a) if isinstance(x, ast.Name))  # type: ignore[arg-type]
         src = origin(ln, lp.iter.id) if isinstance(lp.iter, ast.Name) else {norm(lp.iter)}  # type: ignore[arg-type]
         from_app = bool(src) and all(carried.get(s) == 1 for s in src)
         before = cn.id not in after_eh  # type: ignore[union-attr]
-        ctx.ob("R19.2", "every header pair of the application is sent, unfiltered and unchanged", not filt and unchanged and from_app and before,
-               f"loop over `{norm(lp.iter)}` (copied from {sorted(src)}; start_response's headers parameter: {from_app}); filters inside the loop: {filt}; pair passed unchanged: {unchanged}; before end_headers: {before}", wfi, c, "header loop unfiltered")
+        in_order = _sends_pair(c, lp)
+        ctx.ob("R19.2", "every header pair of the application is sent, unfiltered and unchanged", not filt and unchanged and in_order and from_app and before,
+               f"loop over `{norm(lp.iter)}` (copied from {sorted(src)}; start_response's headers parameter: {from_app}); filters inside the loop: {filt}; pair passed unchanged: {unchanged and in_order}; before end_headers: {before}", wfi, c, "header loop unfiltered")
     # status code: int(first token of the application's status)
     ok = False
     fact = ""
     defs = rdw.reaching(sr_node, code_name)  # type: ignore[arg-type]
-    if defs and all(d.kind == "assign" and isinstance(d.value, ast.Call) and dotted(d.value.func) == "int" and len(d.value.args) == 1 and isinstance(d.value.args[0], ast.Name) for d in defs):
+    if defs and all(d.kind == "assign" and isinstance(d.value, ast.Call) and dotted(d.value.func) == "int" and len(d.value.args) == 1 and not d.value.keywords for d in defs):
         ok = True
         for d in defs:
-            tok = d.value.args[0].id  # type: ignore[union-attr]
+            tok_e = d.value.args[0]  # type: ignore[union-attr]
+            tok = tok_e.id if isinstance(tok_e, ast.Name) else norm(tok_e)
             def token_src(v: ast.AST | None, at: Node, first: bool, depth: int = 0) -> set[str]:
                 """the names whose first token (split / partition at whitespace) or whole value the expression is;
                 ``first``: the expression is a sequence and its element 0 is meant."""
                 if first and isinstance(v, ast.Call) and isinstance(v.func, ast.Attribute) and v.func.attr in ("split", "partition") and isinstance(v.func.value, ast.Name):
                     return origin(at, v.func.value.id)
-                if first and isinstance(v, (ast.Tuple, ast.List)) and v.elts and isinstance(v.elts[0], ast.Name):
-                    return origin(at, v.elts[0].id)
+                if first and isinstance(v, (ast.Tuple, ast.List)) and v.elts and not isinstance(v.elts[0], ast.Starred):
+                    return token_src(v.elts[0], at, False, depth)  # element 0 of a display is that expression itself
                 if isinstance(v, ast.Subscript) and not first and isinstance(v.slice, ast.Constant) and v.slice.value == 0:
                     return token_src(v.value, at, True, depth)
                 if isinstance(v, ast.Name) and first and depth < 3:  # a local holding the split result
@@ -462,8 +520,17 @@ def _response_rules(ctx: Ctx, rw: FuncInfo) -> None:
                         return out_
                 if isinstance(v, ast.Name) and not first:
                     return origin(at, v.id)
-                return {f"<{norm(v) if v is not None else '?'}>"}
+                if isinstance(v, ast.Subscript) and isinstance(v.slice, ast.Constant) and isinstance(v.slice.value, int):
+                    return {f"<element {v.slice.value} of {norm(v.value)}>"}  # understood, and not the first token
+                if isinstance(v, ast.Constant):
+                    return {f"<{norm(v)}>"}
+                raise AnalysisError(f"writer: the status code is parsed from `{norm(v) if v is not None else '?'}`, which is not followed (expected the first token of a split / partition of the status)")
 
+            if not isinstance(tok_e, ast.Name):  # int(<expression>): the expression itself is the token
+                src = token_src(tok_e, d.node, False)  # type: ignore[arg-type]
+                fact += f"`{tok}` <- {sorted(src)}; "
+                ok = ok and all(carried.get(s) == 0 for s in src)
+                continue
             for dd in rdw.reaching(d.node, tok):  # type: ignore[arg-type]
                 v = dd.value
                 if dd.kind == "unpack" and dd.index == 0:
@@ -604,37 +671,146 @@ def _ranges(codes: t.Iterable[int]) -> str:
     return "{" + ",".join(out) + "}"
 
 
+def _pair_parts(lp: ast.For) -> tuple[str, str] | None:
+    """source text of 'the name' and 'the value' of the pair a loop iterates over: `for k, v in X` -> k, v;
+    `for h in X` -> h[0], h[1]."""
+    tg = lp.target
+    if isinstance(tg, (ast.Tuple, ast.List)) and len(tg.elts) == 2 and all(isinstance(e, ast.Name) for e in tg.elts):
+        return tg.elts[0].id, tg.elts[1].id  # type: ignore[attr-defined]
+    if isinstance(tg, ast.Name):
+        return f"{tg.id}[0]", f"{tg.id}[1]"
+    return None
+
+
+def _sends_pair(c: ast.Call, lp: ast.For) -> bool:
+    """send_header(<name of the loop's pair>, <value of the loop's pair>), or send_header(*<pair>)."""
+    parts = _pair_parts(lp)
+    if parts is None or c.keywords:
+        return False
+    if len(c.args) == 2:
+        return (norm(c.args[0]), norm(c.args[1])) == parts
+    return len(c.args) == 1 and isinstance(c.args[0], ast.Starred) and isinstance(lp.target, ast.Name) and norm(c.args[0].value) == lp.target.id
+
+
+def _strip_methods(e: ast.AST) -> ast.AST:
+    """`x.a().b()` -> x (method calls only; subscripts and attributes stay)."""
+    while isinstance(e, ast.Call) and isinstance(e.func, ast.Attribute):
+        e = e.func.value
+    return e
+
+
 def _content_length_set(ctx: Ctx, wfi: FuncInfo, wcfg: CFG, rdw: ReachingDefs, test: Node) -> None:
     """the constant compared against the collected header names is in the letter case the names were folded to, and the
-    names are those of the header pairs that are sent."""
+    names are those of the header pairs that are sent.  The collection: a local filled by add / append in the loop that
+    sends the pairs, or a set / list / dict comprehension (bound to a local or written in the test itself) over the
+    iterable whose pairs are sent."""
     a = test.ast
     const = _const_str(a.left)  # type: ignore[attr-defined]
-    setname = a.comparators[0].id  # type: ignore[attr-defined]
-    elts: list[tuple[ast.AST, ast.AST]] = []  # (element expression, site)
-    for c in astq.calls(wfi.node, nested=False):
-        if isinstance(c.func, ast.Attribute) and isinstance(c.func.value, ast.Name) and c.func.value.id == setname and c.func.attr in ("add", "append") and len(c.args) == 1:
-            elts.append((c.args[0], c))
-    for s, v in astq.assigns_to(wfi.node, setname):
-        if isinstance(v, (ast.SetComp, ast.ListComp, ast.GeneratorExp)):
-            elts.append((v.elt, s))
-        elif isinstance(v, ast.Call) and dotted(v.func) in ("set", "frozenset", "list", "tuple") and len(v.args) == 1 and isinstance(v.args[0], (ast.GeneratorExp, ast.ListComp, ast.SetComp)):
-            elts.append((v.args[0].elt, s))
+    coll = a.comparators[0]  # type: ignore[attr-defined]
+    sent = {norm(lp.iter) for lp in walk_no_nested(wfi.node) if isinstance(lp, ast.For) and any(_self_call(c, "send_header") and _sends_pair(c, lp) for c in astq.calls(lp, nested=False))}
+    elts: list[tuple[ast.AST, ast.AST, ast.AST | None]] = []  # (element expression, site, comprehension or None)
+
+    def comp_of(v: ast.AST | None) -> ast.AST | None:
+        if isinstance(v, (ast.SetComp, ast.ListComp, ast.GeneratorExp, ast.DictComp)):
+            return v
+        if isinstance(v, ast.Call) and dotted(v.func) in ("set", "frozenset", "list", "tuple", "sorted") and len(v.args) == 1 and not v.keywords:
+            return comp_of(v.args[0])
+        return None
+
+    def raw_names(v: ast.AST) -> ast.AST | None:
+        if isinstance(v, ast.Call) and isinstance(v.func, ast.Attribute) and v.func.attr == "keys" and not v.args:
+            v = v.func.value
+        if isinstance(v, ast.Call) and dotted(v.func) in ("dict", "collections.OrderedDict", "OrderedDict") and len(v.args) == 1 and not v.keywords and isinstance(v.args[0], ast.Name):
+            return v.args[0]
+        return None
+
+    def add_comp(cmp_: ast.AST, site: ast.AST) -> None:
+        elts.append((cmp_.key if isinstance(cmp_, ast.DictComp) else cmp_.elt, site, cmp_))  # type: ignore[attr-defined]
+
+    what = norm(coll)
+    if isinstance(coll, ast.Name):
+        for c in astq.calls(wfi.node, nested=False):
+            if isinstance(c.func, ast.Attribute) and isinstance(c.func.value, ast.Name) and c.func.value.id == coll.id and c.func.attr in ("add", "append") and len(c.args) == 1:
+                elts.append((c.args[0], c, None))
+        for s_, v in astq.assigns_to(wfi.node, coll.id):
+            cmp_ = comp_of(v)
+            if cmp_ is not None:
+                add_comp(cmp_, s_)
+        for s_ in walk_no_nested(wfi.node):  # <names>[<name>.lower()] = ... in the sending loop (a dict of the headers sent)
+            if isinstance(s_, ast.Assign):
+                for tg in s_.targets:
+                    if isinstance(tg, ast.Subscript) and isinstance(tg.value, ast.Name) and tg.value.id == coll.id:
+                        elts.append((tg.slice, s_, None))
+    elif comp_of(coll) is not None:
+        add_comp(comp_of(coll), coll)  # type: ignore[arg-type]
+    elif raw_names(coll) is not None:
+        # dict(<pairs>) / dict(<pairs>).keys(): the names exactly as the application spelled them - no case folding at all
+        src_ = raw_names(coll)
+        ok_iter = norm(src_) in sent
+        ctx.ob("R19.1", "the Content-Length test sees every header name sent, in the case it compares with", False,
+               f"`{what}`: the header names are compared as the application spelled them (no case folding; header names are case-insensitive); built from the headers that are sent: {ok_iter}", wfi, test.ast, "content-length test case folding")
+        return
+    else:
+        raise AnalysisError(f"writer: the Content-Length test looks in `{what}`, which is not followed (expected a local collection or a comprehension of the header names)")
     ok = bool(elts)
     facts = []
-    for e, site in elts:
+    for e, site, cmp_ in elts:
         chain = [nm for nm, _ in astq.method_chain(e)]
         fold = next((nm for nm in reversed(chain) if nm in ("lower", "upper", "casefold")), None)
         agrees = fold is not None and const is not None and getattr(const, fold)() == const
-        root = astq.chain_root(e)
-        lp = astq.enclosing(site, (ast.For, ast.comprehension)) if not isinstance(site, ast.stmt) or not isinstance(getattr(site, "value", None), (ast.SetComp, ast.ListComp, ast.GeneratorExp, ast.Call)) else None
-        key_ok = True
-        if isinstance(lp, ast.For):
-            first = lp.target.elts[0] if isinstance(lp.target, (ast.Tuple, ast.List)) and lp.target.elts else lp.target
-            sends = any(_self_call(c, "send_header") and c.args and norm(c.args[0]) == norm(first) for c in astq.calls(lp, nested=False))
-            key_ok = isinstance(root, ast.Name) and norm(root) == norm(first) and sends
-        facts.append(f"`{norm(e)}`: case folding `{fold}` agrees with constant {const!r}: {agrees}; is the name of the header being sent: {key_ok}")
+        root = _strip_methods(e)
+        if cmp_ is not None:
+            gens = cmp_.generators  # type: ignore[attr-defined]
+            g0 = gens[0]
+            first = norm(g0.target.elts[0]) if isinstance(g0.target, (ast.Tuple, ast.List)) and len(g0.target.elts) == 2 else (f"{g0.target.id}[0]" if isinstance(g0.target, ast.Name) else None)
+            key_ok = len(gens) == 1 and not g0.ifs and first is not None and norm(root) == first and norm(g0.iter) in sent
+        else:
+            lp = astq.enclosing(site, (ast.For,))
+            key_ok = False
+            if isinstance(lp, ast.For):
+                parts = _pair_parts(lp)
+                sends = any(_self_call(c, "send_header") and _sends_pair(c, lp) for c in astq.calls(lp, nested=False))
+                key_ok = parts is not None and norm(root) == parts[0] and sends
+        facts.append(f"`{norm(e)}`: case folding `{fold}` agrees with constant {const!r}: {agrees}; is the name of every header being sent: {key_ok}")
         ok = ok and agrees and key_ok
-    ctx.ob("R19.1", "the Content-Length test sees every header name sent, in the case it compares with", ok, "; ".join(facts) or f"no element of `{setname}` found", wfi, test.ast, "content-length test case folding")
+    ctx.ob("R19.1", "the Content-Length test sees every header name sent, in the case it compares with", ok, "; ".join(facts) or f"no element of `{what}` found", wfi, test.ast, "content-length test case folding")
+
+
+def _content_length_flag(name: ast.Name, at: Node, wfi: FuncInfo, wcfg: CFG, rdw: ReachingDefs) -> tuple[bool, str] | None:
+    """a boolean local that records whether a Content-Length header was seen: every definition reaching the test is the
+    constant False or the constant True, the latter only under `<header name>.lower() == "content-length"` (or the
+    like) inside the loop that sends the pairs.  Returns (the recording is right, description), or None when the
+    local is no such flag."""
+    ds = rdw.reaching(at, name.id)
+    if len(ds) < 2 or not all(d.kind == "assign" and d.index is None and isinstance(d.value, ast.Constant) and isinstance(d.value.value, bool) and d.node is not None for d in ds):
+        return None
+    trues = [d for d in ds if d.value.value is True]  # type: ignore[union-attr]
+    if not trues or len(trues) == len(ds):
+        return None
+    okf, facts = True, []
+    for d in trues:
+        lp = astq.enclosing(d.stmt, (ast.For,)) if d.stmt is not None else None
+        parts = _pair_parts(lp) if isinstance(lp, ast.For) else None
+        sends = isinstance(lp, ast.For) and any(_self_call(c, "send_header") and _sends_pair(c, lp) for c in astq.calls(lp, nested=False))
+        inner = {id(x) for x in ast.walk(lp)} if lp is not None else set()
+        gs = [(t_, l) for t_, l in wcfg.guards(d.node) if t_.kind == "test" and t_.ast is not None and id(t_.ast) in inner]  # type: ignore[arg-type]
+        good = False
+        why = f"guards {[norm(t_.ast) + ':' + l for t_, l in gs]}"
+        if len(gs) == 1 and parts is not None and sends:
+            t_, l = gs[0]
+            e = t_.ast
+            if isinstance(e, ast.Compare) and len(e.ops) == 1 and isinstance(e.ops[0], (ast.Eq, ast.NotEq)) and ((l == "T") == isinstance(e.ops[0], ast.Eq)):
+                sides = [e.left, e.comparators[0]]
+                const = next((_const_str(x) for x in sides if _const_str(x) is not None), None)
+                expr = next((x for x in sides if _const_str(x) is None), None)
+                if const is not None and expr is not None and const.lower() == "content-length":
+                    chain = [nm for nm, _ in astq.method_chain(expr)]
+                    fold = next((nm for nm in reversed(chain) if nm in ("lower", "upper", "casefold")), None)
+                    good = fold is not None and getattr(const, fold)() == const and norm(_strip_methods(expr)) == parts[0]
+                    why = f"`{norm(e)}`: case folding `{fold}` agrees with the constant and compares the name of the header being sent: {good}"
+        okf = okf and good
+        facts.append(why)
+    return okf, f"flag `{name.id}` set by {'; '.join(facts)}"
 
 
 def _content_length_search(a: ast.AST | None, label: str, wfi: FuncInfo) -> tuple[bool, str] | None:
@@ -751,18 +927,32 @@ def _wire_rules(ctx: Ctx, wfi: FuncInfo, wcfg: CFG, dataname: str, flag: str) ->
                                 env[e.id] = [("?", norm(a.value))]
             elif isinstance(a, ast.AugAssign) and isinstance(a.target, ast.Name):
                 if isinstance(a.op, ast.Add):
-                    env[a.target.id] = H.merge(env.get(a.target.id, [("?", a.target.id)]) + H.wire_val(a.value, env))
+                    cur_, add_ = env.get(a.target.id, [("?", a.target.id)]), H.wire_val(a.value, env)
+                    if H.is_seq(cur_) or H.is_seq(add_):
+                        env[a.target.id] = [("SEQ", tuple(H.merge(H.unseq(cur_) + H.unseq(add_))))] if H.is_seq(cur_) and H.is_seq(add_) else [("?", norm(a))]
+                    else:
+                        env[a.target.id] = H.merge(cur_ + add_)
                 else:
                     env[a.target.id] = [("?", norm(a))]
+            if isinstance(a, ast.Expr) and isinstance(a.value, ast.Call) and isinstance(a.value.func, ast.Attribute) and isinstance(a.value.func.value, ast.Name) and H.is_seq(env.get(a.value.func.value.id, [])):
+                # a local list of pieces being built: append / extend / insert(0, ...)
+                c_, nm_ = a.value, a.value.func.value.id
+                cur_ = H.unseq(env[nm_])
+                if c_.func.attr == "append" and len(c_.args) == 1 and not c_.keywords:
+                    env[nm_] = [("SEQ", tuple(H.merge(cur_ + H.unseq(H.wire_val(c_.args[0], env)))))]
+                elif c_.func.attr == "extend" and len(c_.args) == 1 and not c_.keywords and H.is_seq(H.wire_val(c_.args[0], env)):
+                    env[nm_] = [("SEQ", tuple(H.merge(cur_ + H.unseq(H.wire_val(c_.args[0], env)))))]
+                elif c_.func.attr == "insert" and len(c_.args) == 2 and isinstance(c_.args[0], ast.Constant) and c_.args[0].value == 0:
+                    env[nm_] = [("SEQ", tuple(H.merge(H.unseq(H.wire_val(c_.args[1], env)) + cur_)))]
+                else:
+                    env[nm_] = [("?", norm(a))]
             for c in ast.walk(a):
                 if id(c) in emit_ids:
-                    if c.func.attr == "writelines" and len(c.args) == 1 and isinstance(c.args[0], (ast.List, ast.Tuple)):  # type: ignore[attr-defined]
-                        for x in c.args[0].elts:
-                            wire += H.wire_val(x, env)
-                    elif len(c.args) == 1:  # type: ignore[attr-defined]
-                        wire += H.wire_val(c.args[0], env)  # type: ignore[attr-defined]
+                    val_ = H.wire_val(c.args[0], env) if len(c.args) == 1 and not c.keywords else [("?", norm(c))]  # type: ignore[attr-defined]
+                    if c.func.attr == "writelines":  # type: ignore[attr-defined]
+                        wire += H.unseq(val_) if H.is_seq(val_) else [("?", norm(c))]
                     else:
-                        wire.append(("?", norm(c)))
+                        wire += val_ if not H.is_seq(val_) else [("?", norm(c))]
         if not feasible:
             continue
         n_feasible += 1
@@ -832,7 +1022,12 @@ def _executor_rules(ctx: Ctx, xfi: FuncInfo, writer: str, flag: str, writer_nonl
         cn = xcfg.node_of(c)
         assert cn is not None
         val = c.args[0].value if len(c.args) == 1 and isinstance(c.args[0], ast.Constant) else None
-        ctx.ob("R19.2", "the last-chunk is exactly `0 CRLF CRLF`", val == b"0\r\n\r\n", f"`{norm(c)}`", xfi, c, "terminator bytes")
+        if val is None and len(c.args) == 1 and isinstance(c.args[0], (ast.Name, ast.Attribute)):
+            try:
+                val = _folder_of(ctx, xfi)(c.args[0])  # a module-level constant
+            except Exception:
+                raise AnalysisError(f"executor: the bytes written by `{norm(c)}` are not a constant this analysis can fold")
+        ctx.ob("R19.2", "the last-chunk is exactly `0 CRLF CRLF`", val == b"0\r\n\r\n", f"`{norm(c)}`" + (f" = {val!r}" if not isinstance(c.args[0] if c.args else None, ast.Constant) else ""), xfi, c, "terminator bytes")
         G = xcfg.guards(cn)
         under_flag = any(isinstance(t_.ast, ast.Name) and t_.ast.id == flag and l == "T" for t_, l in G)
         extra = [f"{norm(t_.ast)}:{l}" for t_, l in G if not (isinstance(t_.ast, ast.Name) and t_.ast.id == flag) and t_ is not ln]
@@ -860,15 +1055,100 @@ def _executor_rules(ctx: Ctx, xfi: FuncInfo, writer: str, flag: str, writer_nonl
 # R19.4
 
 
+def _is_header_items(e: ast.AST | None) -> bool:
+    return isinstance(e, ast.Call) and isinstance(e.func, ast.Attribute) and e.func.attr == "items" and is_self_attr(e.func.value, "headers") and not e.args and not e.keywords
+
+
+def _unwrap_seq(e: ast.AST) -> ast.AST:
+    """list(x) / tuple(x) / iter(x) -> x: iterating the copy is iterating x (the loop does not change the headers)."""
+    while isinstance(e, ast.Call) and dotted(e.func) in ("list", "tuple", "iter") and len(e.args) == 1 and not e.keywords:
+        e = e.args[0]
+    return e
+
+
+def _normalise_header_loop(me: FuncInfo) -> FuncInfo:
+    """`for T in (E for G in self.headers.items() if C)` (generator or list comprehension, possibly inside list() /
+    tuple()) is rewritten to `for G in self.headers.items(): if not C: continue; T = E; <body>`, and a list() / tuple() /
+    iter() around the items is dropped, so that the loop rules see one iteration with its filter.  Only when the
+    comprehension's variables are used nowhere else in the function."""
+    def through_local(fn: ast.AST, lp: ast.For) -> ast.AST:
+        """`xs = <expr>` ... `for T in xs` with xs bound once and used by the loop only -> <expr>."""
+        if isinstance(lp.iter, ast.Name):
+            uses = [x for x in ast.walk(fn) if isinstance(x, ast.Name) and x.id == lp.iter.id]
+            binds = astq.assigns_to(fn, lp.iter.id)
+            if len(binds) == 1 and binds[0][1] is not None and len(uses) == 2 and isinstance(binds[0][0], (ast.Assign, ast.AnnAssign)):
+                return binds[0][1]
+        return lp.iter
+
+    def shape(lp: ast.AST, fn: ast.AST | None = None) -> str | None:
+        if not isinstance(lp, ast.For):
+            return None
+        src_ = through_local(fn if fn is not None else me.node, lp)
+        it = _unwrap_seq(src_)
+        if isinstance(it, (ast.GeneratorExp, ast.ListComp)) and len(it.generators) == 1 and not it.generators[0].is_async and _is_header_items(_unwrap_seq(it.generators[0].iter)):
+            return "comp"
+        if it is not lp.iter and src_ is lp.iter and _is_header_items(it):
+            return "wrapped"
+        return None
+
+    if not any(shape(n) for n in walk_no_nested(me.node)):
+        return me
+    new_fn = H.clone(me.node)
+    for lp in [n for n in walk_no_nested(new_fn) if shape(n, new_fn)]:
+        src_ = through_local(new_fn, lp)
+        it = _unwrap_seq(src_)
+        if shape(lp, new_fn) == "wrapped":
+            lp.iter = it
+            continue
+        if src_ is not lp.iter:  # the comprehension was bound to a local: that statement goes away
+            bst = astq.assigns_to(new_fn, lp.iter.id)[0][0]
+            for holder in ast.walk(new_fn):
+                for fld in ("body", "orelse", "finalbody"):
+                    blk = getattr(holder, fld, None)
+                    if isinstance(blk, list) and any(x is bst for x in blk):
+                        blk[:] = [ast.copy_location(ast.Pass(), bst) if x is bst else x for x in blk]
+        gen = it.generators[0]
+        comp_names = {x.id for x in ast.walk(gen.target) if isinstance(x, ast.Name)}
+        in_comp = {id(x) for x in ast.walk(it)}
+        clash = [x for x in ast.walk(new_fn) if isinstance(x, ast.Name) and x.id in comp_names and id(x) not in in_comp]
+        body_names = {x.id for x in ast.walk(lp.target) if isinstance(x, ast.Name)}
+        if clash and not (comp_names == body_names and norm(gen.target) == norm(lp.target) == norm(it.elt)):
+            return me  # hoisting the comprehension's variables would capture other uses of these names
+        pre: list[ast.stmt] = []
+        if gen.ifs:
+            tst = gen.ifs[0] if len(gen.ifs) == 1 else ast.BoolOp(op=ast.And(), values=list(gen.ifs))
+            pre.append(ast.If(test=ast.UnaryOp(op=ast.Not(), operand=tst), body=[ast.Continue()], orelse=[]))
+        if norm(it.elt) != norm(lp.target):
+            tgt = H.clone(lp.target)
+            pre.append(ast.Assign(targets=[tgt], value=it.elt))
+        new_target = H.clone(gen.target)
+        for x in ast.walk(new_target):
+            if isinstance(x, (ast.Name, ast.Tuple, ast.List)):
+                x.ctx = ast.Store()
+        for st in pre:
+            ast.copy_location(st, lp)
+            ast.fix_missing_locations(st)
+        lp.target = new_target
+        lp.iter = _unwrap_seq(gen.iter)
+        lp.body = pre + lp.body
+    ast.fix_missing_locations(new_fn)
+    for n in ast.walk(new_fn):
+        for ch in ast.iter_child_nodes(n):
+            ch._parent = n  # type: ignore[attr-defined]
+    return FuncInfo(me.module, new_fn, me.qualname, me.cls)
+
+
 def _environ_rules(ctx: Ctx, me: FuncInfo) -> ClassInfo:
     repo = ctx.repo
+    me = _normalise_header_loop(me)
     cfg = cfg_of(me)
     rd = ReachingDefs(cfg, me.params)
     rets = astq.returns_of(me.node)
     if not rets or not all(isinstance(r.value, ast.Name) for r in rets) or len({r.value.id for r in rets}) != 1:  # type: ignore[union-attr]
         raise AnalysisError("make_environ: expected `return <environ name>`")
     env = rets[0].value.id  # type: ignore[union-attr]
-    dicts = [(s, v) for s, v in astq.assigns_to(me.node, env) if isinstance(v, ast.Dict)]
+    # the literal that lists the fixed entries (a dict display with constant keys; `{**a, **b}` is a merge, not the literal)
+    dicts = [(s, v) for s, v in astq.assigns_to(me.node, env) if isinstance(v, ast.Dict) and any(k is not None for k in v.keys)]
     if len(dicts) != 1:
         raise AnalysisError("make_environ: expected one dict literal bound to the environ")
     dstmt, dlit = dicts[0]
@@ -876,19 +1156,28 @@ def _environ_rules(ctx: Ctx, me: FuncInfo) -> ClassInfo:
     assert dnode is not None and isinstance(dlit, ast.Dict)
     entries = {_const_str(k): v for k, v in zip(dlit.keys, dlit.values) if k is not None and _const_str(k) is not None}
 
-    def env_store(st: ast.AST) -> tuple[ast.AST, ast.AST] | None:
-        if isinstance(st, ast.Assign) and len(st.targets) == 1:
-            tg = st.targets[0]
-            if isinstance(tg, ast.Subscript) and isinstance(tg.value, ast.Name) and tg.value.id == env:
-                return tg.slice, st.value
-        return None
+    def sub_store(st: ast.AST) -> list[tuple[str, ast.AST, ast.AST]]:
+        """`<name>[<key>] = <value>` (also pairwise in a tuple assignment) and `<name>.update({<key>: <value>, ...})`
+        -> (name, key, value) per entry."""
+        out: list[tuple[str, ast.AST, ast.AST]] = []
+        if isinstance(st, ast.Assign):
+            for tg in st.targets:
+                if isinstance(tg, ast.Subscript) and isinstance(tg.value, ast.Name):
+                    out.append((tg.value.id, tg.slice, st.value))
+                elif isinstance(tg, (ast.Tuple, ast.List)) and isinstance(st.value, (ast.Tuple, ast.List)) and len(tg.elts) == len(st.value.elts):
+                    for e, v in zip(tg.elts, st.value.elts):
+                        if isinstance(e, ast.Subscript) and isinstance(e.value, ast.Name):
+                            out.append((e.value.id, e.slice, v))
+        elif isinstance(st, ast.Expr) and isinstance(st.value, ast.Call) and isinstance(st.value.func, ast.Attribute) and st.value.func.attr == "update" and isinstance(st.value.func.value, ast.Name):
+            c = st.value
+            if len(c.args) == 1 and not c.keywords and isinstance(c.args[0], ast.Dict) and all(k is not None for k in c.args[0].keys):
+                out += [(c.func.value.id, k, v) for k, v in zip(c.args[0].keys, c.args[0].values)]  # type: ignore[misc]
+        return out
 
-    stores = [(s, *env_store(s)) for s in walk_no_nested(me.node) if env_store(s) is not None]  # type: ignore[misc]
+    sub_stores = [(s, *e) for s in walk_no_nested(me.node) for e in sub_store(s)]
+    stores = [(s, k, v) for s, b, k, v in sub_stores if b == env]
 
     # ---- request line -------------------------------------------------
-    ctx.ob("R19.4", "REQUEST_METHOD is the parsed request method", "REQUEST_METHOD" in entries and is_self_attr(entries["REQUEST_METHOD"], "command"), f"`{norm(entries.get('REQUEST_METHOD')) if entries.get('REQUEST_METHOD') is not None else None}`", me, dstmt, "REQUEST_METHOD source")
-    ctx.ob("R19.4", "wsgi.input starts as the connection's read file", "wsgi.input" in entries and is_self_attr(entries["wsgi.input"], "rfile"), f"`{norm(entries.get('wsgi.input')) if entries.get('wsgi.input') is not None else None}`", me, dstmt, "wsgi.input source")
-
     def callee(c: ast.AST) -> str | None:
         if isinstance(c, ast.Call):
             d = dotted(c.func)
@@ -943,23 +1232,137 @@ def _environ_rules(ctx: Ctx, me: FuncInfo) -> ClassInfo:
                 return [(d.value, d.node) for d in ds]  # type: ignore[misc]
         return [(e, at)]
 
-    q = entries.get("QUERY_STRING")
-    ok = q is not None and callee(q) == DANCE and len(q.args) == 1 and role(q.args[0], dnode) == "query"  # type: ignore[union-attr]
-    ctx.ob("R19.4", "QUERY_STRING is the raw query of urlsplit(self.path), only re-encoded (never unquoted)", ok, f"`{norm(q) if q is not None else None}`", me, q if q is not None else dstmt, "QUERY_STRING source")
+    # which function splits the request target
+    parsers = [c for c in astq.calls(me.node, nested=False) if len(c.args) >= 1 and is_self_attr(c.args[0], "path") and (callee(c) or "").startswith("urllib.parse.url")]
+    wrong_parser = [c for c in parsers if callee(c) != SPLIT or len(c.args) != 1 or c.keywords]
+    if not parsers:
+        raise AnalysisError("make_environ: no urllib.parse call on self.path found (how the request target is split is not followed)")
+    ctx.ob("R19.4", "the request target is split by urllib.parse.urlsplit(self.path) (path parameters stay in the path)", not wrong_parser, f"{[norm(c) + ' -> ' + str(callee(c)) for c in parsers]}", me, (wrong_parser or parsers)[0], "request target splitter")
 
+    def entry(key: str) -> list[tuple[ast.AST, Node]]:
+        """the expressions stored under a key of the literal (a local holding the value is followed to its definitions)."""
+        e = entries.get(key)
+        return resolve(e, dnode) if e is not None else []
+
+    def shown(vs: list[tuple[ast.AST, Node]]) -> str:
+        return ", ".join(f"`{norm(v)}`" for v, _ in vs) or "None"
+
+    m_ = entry("REQUEST_METHOD")
+    ctx.ob("R19.4", "REQUEST_METHOD is the parsed request method", bool(m_) and all(is_self_attr(v, "command") for v, _ in m_), shown(m_), me, dstmt, "REQUEST_METHOD source")
+    i_ = entry("wsgi.input")
+    ctx.ob("R19.4", "wsgi.input starts as the connection's read file", bool(i_) and all(is_self_attr(v, "rfile") for v, _ in i_), shown(i_), me, dstmt, "wsgi.input source")
+
+    q_ = entry("QUERY_STRING")
+    ok = bool(q_) and all(callee(v) == DANCE and len(v.args) == 1 and not v.keywords and role(v.args[0], n) == "query" for v, n in q_)  # type: ignore[attr-defined]
+    ctx.ob("R19.4", "QUERY_STRING is the raw query of urlsplit(self.path), only re-encoded (never unquoted)", ok, shown(q_), me, entries.get("QUERY_STRING", dstmt), "QUERY_STRING source")
+
+    p_ = entry("PATH_INFO")
     p = entries.get("PATH_INFO")
-    okp = False
-    factp = f"`{norm(p) if p is not None else None}`"
+    okp = bool(p_) and all(callee(v) == DANCE and len(v.args) == 1 and not v.keywords for v, _ in p_)  # type: ignore[attr-defined]
+    factp = shown(p_)
     raw_srcs: list[tuple[ast.AST, Node]] = []
-    if p is not None and callee(p) == DANCE and len(p.args) == 1 and not p.keywords:  # type: ignore[union-attr]
-        decoded = resolve(p.args[0], dnode)  # type: ignore[union-attr]
+    decoded: list[tuple[ast.AST, Node]] = []
+    if okp:
+        for v, n in p_:
+            decoded += resolve(v.args[0], n)  # type: ignore[attr-defined]
         okp = bool(decoded) and all(callee(v) == UNQ and len(v.args) == 1 and not v.keywords for v, _ in decoded)  # type: ignore[attr-defined]
         factp += f"; decoded by {[norm(v) for v, _ in decoded]}"
         if okp:
             for v, n in decoded:
                 raw_srcs += resolve(v.args[0], n)  # type: ignore[attr-defined]
     ctx.ob("R19.4", "PATH_INFO is the path percent-decoded once, then re-encoded", okp, factp, me, p if p is not None else dstmt, "PATH_INFO source")
-    # the raw path: urlsplit().path, or "/" + netloc + path when there is no scheme but a netloc ('//' prefix)
+    # the raw path: urlsplit().path, or "/" + netloc + path when there is no scheme but a netloc ('//' prefix).
+    # Decided by evaluating every path from the entry to the unquote call on sample URL components (scheme and netloc
+    # empty / non-empty); a condition that does not depend on the URL is followed on both edges.
+    SAMPLE = {"path": "/a%20b/c", "query": "x=1%2B2", "fragment": "frag"}
+    UNK = object()
+
+    def raw_eval() -> tuple[bool, str]:
+        results: dict[tuple[str, str], set[str]] = {}
+        for v, n in decoded:
+            prefix = [p_ for p_ in H.paths(cfg, cfg.entry, [n, cfg.exit, cfg.raise_exit], follow_exc=False) if p_[-1][0] is n]
+            for sch in ("", "http"):
+                for net in ("", "host:8080"):
+                    comp = {"scheme": sch, "netloc": net, **SAMPLE}
+                    got = results.setdefault((sch, net), set())
+                    for pth in prefix:
+                        vals: dict[str, t.Any] = {}
+                        cur: list[Node] = [cfg.entry]
+
+                        def bind(x: ast.AST) -> tuple[bool, t.Any]:
+                            if isinstance(x, ast.Name) and x.id in vals:
+                                if vals[x.id] is UNK:
+                                    raise H.Unknown(x.id)
+                                return True, vals[x.id]
+                            if isinstance(x, (ast.Name, ast.Attribute, ast.Subscript)):
+                                r_ = role(x, cur[0])
+                                if r_ is not None:
+                                    return True, comp[r_]
+                            return False, None
+
+                        def url_derived(a: ast.AST) -> bool:
+                            return any(is_self_attr(x, "path") or (isinstance(x, ast.Name) and isinstance(vals.get(x.id), str)) or (isinstance(x, (ast.Name, ast.Attribute, ast.Subscript)) and role(x, cur[0]) is not None) for x in ast.walk(a))
+
+                        feasible = True
+                        for node, label in pth[:-1]:
+                            a = node.ast
+                            if a is None:
+                                continue
+                            cur[0] = node
+                            if node.kind == "test":
+                                if label not in ("T", "F"):
+                                    continue
+                                try:
+                                    c = bool(H.ev(a, bind))
+                                except H.Unknown as e:
+                                    if url_derived(a):
+                                        raise H.Unknown(f"condition `{norm(a)}`: {e}")
+                                    continue  # independent of the URL: both edges
+                                if c != (label == "T"):
+                                    feasible = False
+                                    break
+                            elif node.kind == "stmt":
+                                if isinstance(a, (ast.Assign, ast.AnnAssign)) and a.value is not None:
+                                    for tg in a.targets if isinstance(a, ast.Assign) else [a.target]:
+                                        if isinstance(tg, ast.Name):
+                                            if split_obj(a.value, node) and not isinstance(a.value, ast.Name):
+                                                vals.pop(tg.id, None)  # the split result itself: components come from role()
+                                                continue
+                                            try:
+                                                vals[tg.id] = H.ev(a.value, bind)
+                                            except H.Unknown:
+                                                vals[tg.id] = UNK
+                                        else:
+                                            for x in ast.walk(tg):
+                                                if isinstance(x, ast.Name):
+                                                    vals.pop(x.id, None)  # unpacked names: role() knows them, or nothing does
+                                elif isinstance(a, ast.AugAssign) and isinstance(a.target, ast.Name):
+                                    try:
+                                        vals[a.target.id] = H.ev(ast.BinOp(left=ast.Name(id=a.target.id, ctx=ast.Load()), op=a.op, right=a.value), bind)
+                                    except H.Unknown:
+                                        vals[a.target.id] = UNK
+                                elif isinstance(a, (ast.For, ast.With)):
+                                    for x in ast.walk(a.target if isinstance(a, ast.For) else ast.Tuple(elts=[i.optional_vars for i in a.items if i.optional_vars is not None])):
+                                        if isinstance(x, ast.Name):
+                                            vals[x.id] = UNK
+                        if not feasible:
+                            continue
+                        cur[0] = n
+                        r = H.ev(v.args[0], bind)  # type: ignore[attr-defined]
+                        if not isinstance(r, str):
+                            raise H.Unknown(norm(v))
+                        got.add(r)
+        okr = True
+        facts_ = []
+        for (sch, net), got in sorted(results.items()):
+            want = f"/{net}{SAMPLE['path']}" if not sch and net else SAMPLE["path"]
+            if not got:
+                raise H.Unknown(f"no feasible path for scheme {sch!r}, netloc {net!r}")
+            if got != {want}:
+                okr = False
+                facts_.append(f"scheme {sch!r}, netloc {net!r}, path {SAMPLE['path']!r}: decodes {sorted(got)}, expected {want!r}")
+        return okr, "; ".join(facts_) or "evaluated for scheme / netloc empty and non-empty: '/' + netloc + path exactly when there is no scheme but a netloc, the path alone otherwise"
+
     plain = 0
     slashed = 0
     bad = []
@@ -988,23 +1391,62 @@ def _environ_rules(ctx: Ctx, me: FuncInfo) -> ClassInfo:
                     bad.append(f"`{norm(e)}` under {sorted(gg)}")
             else:
                 bad.append(f"`{norm(e)}`")
-    ctx.ob("R19.4", "the path decoded is urlsplit's path, with a '//' first segment re-attached when there is no scheme", okp and plain >= 1 and slashed >= 1 and not bad, f"plain path sources: {plain}; '/'+netloc+path under (no scheme, netloc): {slashed}; other sources: {bad}", me, dstmt, "raw path sources")
+    ok_struct = plain >= 1 and slashed >= 1 and not bad
+    fact_struct = f"plain path sources: {plain}; '/'+netloc+path under (no scheme, netloc): {slashed}; other sources: {bad}"
+    ok_raw, fact_raw = ok_struct, fact_struct
+    if okp:
+        try:
+            ok_raw, fact_raw = raw_eval()
+        except H.Unknown as e:
+            if not ok_struct and not wrong_parser:
+                raise AnalysisError(f"make_environ: cannot evaluate how the raw path is built ({e}); structurally: {fact_struct}")
+    ctx.ob("R19.4", "the path decoded is urlsplit's path, with a '//' first segment re-attached when there is no scheme", okp and ok_raw, fact_raw, me, dstmt, "raw path sources")
 
     # ---- header loop ---------------------------------------------------
-    hloops = [lp for lp in walk_no_nested(me.node) if isinstance(lp, ast.For) and isinstance(lp.iter, ast.Call) and isinstance(lp.iter.func, ast.Attribute) and lp.iter.func.attr == "items" and is_self_attr(lp.iter.func.value, "headers")]
+    def iterates_headers(lp: ast.For) -> bool:
+        """`self.headers.items()`, or a local bound (only) to it."""
+        if _is_header_items(lp.iter):
+            return True
+        if isinstance(lp.iter, ast.Name):
+            ln_ = cfg.node_of(lp)
+            ds = rd.reaching(ln_, lp.iter.id) if ln_ is not None else ()
+            return bool(ds) and all(d.kind == "assign" and d.index is None and _is_header_items(_unwrap_seq(d.value)) for d in ds if d.value is not None) and all(d.value is not None for d in ds)
+        return False
+
+    hloops = [lp for lp in walk_no_nested(me.node) if isinstance(lp, ast.For) and iterates_headers(lp)]
     if len(hloops) != 1 or not (isinstance(hloops[0].target, ast.Tuple) and len(hloops[0].target.elts) == 2 and all(isinstance(e, ast.Name) for e in hloops[0].target.elts)):
         raise AnalysisError("make_environ: expected one `for <key>, <value> in self.headers.items()` loop")
     lp = hloops[0]
-    _header_loop_rules(ctx, me, cfg, lp, env, stores)
+    # the dict the loop fills: the environ itself, or a local dict that is merged into the environ afterwards
+    in_loop = {id(x) for x in ast.walk(lp)}
+    bases = {b for s, b, k, v in sub_stores if id(s) in in_loop}
+    hdict = env
+    merge_node: Node | None = None
+    if bases and bases != {env}:
+        if len(bases) != 1:
+            raise AnalysisError(f"make_environ: the header loop stores into several dicts {sorted(bases)} (not modelled)")
+        hdict = next(iter(bases))
+        merge_node = _header_dict_merge(ctx, me, cfg, lp, env, hdict, dstmt, dlit, stores)
+    env_keys: frozenset[str] | None = None
+    if hdict != env:
+        # what the environ holds while the loop runs: the literal's keys and the constant-key stores that can run before the loop
+        ks = [_const_str(k) if k is not None else None for k in dlit.keys] if cfg.node_dominates(dnode, cfg.node_of(lp)) else []  # type: ignore[arg-type]
+        ks += [_const_str(k) for s, k, v in stores if (sn_ := cfg.node_of(s)) is not None and cfg.node_of(lp).id in cfg.reach(sn_) and id(s) not in in_loop]  # type: ignore[union-attr]
+        env_keys = frozenset(k for k in ks if k is not None) if all(k is not None for k in ks) else None
+    _header_loop_rules(ctx, me, cfg, lp, hdict, [(s, k, v) for s, b, k, v in sub_stores if b == hdict], untouched=env if hdict != env else None, untouched_keys=env_keys)
 
     # ---- terminated <=> wrapped ------------------------------------------
     term = [(s, v) for s, k, v in stores if _const_str(k) == "wsgi.input_terminated"]
     wraps = [(s, v) for s, k, v in stores if _const_str(k) == "wsgi.input"]
     dech: ClassInfo | None = None
+    wrap_calls: dict[int, list[ast.AST]] = {}
     for s, v in wraps:
-        fq = callee(v)
-        if fq and fq.startswith("werkzeug."):
-            dech = repo.try_cls(fq) or dech
+        sn = cfg.node_of(s)
+        for vv, _ in resolve(v, sn) if sn is not None else [(v, None)]:  # the wrapper may be built in a local first
+            fq = callee(vv)
+            if fq and fq.startswith("werkzeug."):
+                dech = repo.try_cls(fq) or dech
+                wrap_calls.setdefault(id(s), []).append(vv)
     if dech is None:
         raise AnalysisError("make_environ: no `environ['wsgi.input'] = <de-chunking class>(...)` store found")
     in_literal = entries.get("wsgi.input_terminated")
@@ -1013,38 +1455,154 @@ def _environ_rules(ctx: Ctx, me: FuncInfo) -> ClassInfo:
     if len(term) == 1 and len(wraps) == 1:
         tn, wn = cfg.node_of(term[0][0]), cfg.node_of(wraps[0][0])
         assert tn is not None and wn is not None
-        same = _gids(cfg, tn) == _gids(cfg, wn)
-        ctx.ob("R19.4", "wsgi.input_terminated is set under exactly the guard under which the input is de-chunked", same and isinstance(term[0][1], ast.Constant) and term[0][1].value is True,
-               f"flag store guards {_gtext(cfg, tn)}; wrap guards {_gtext(cfg, wn)}; value `{norm(term[0][1])}`", me, term[0][0], "terminated iff wrapped")
-        # the wrap guard, with hoisted locals expanded, evaluated over sample Transfer-Encoding values
-        def is_te(x: ast.AST) -> bool:
-            if isinstance(x, ast.Subscript) and isinstance(x.value, ast.Name) and x.value.id == env and _const_str(x.slice) == "HTTP_TRANSFER_ENCODING":
-                return True
-            return isinstance(x, ast.Call) and isinstance(x.func, ast.Attribute) and x.func.attr == "get" and isinstance(x.func.value, ast.Name) and x.func.value.id == env and bool(x.args) and _const_str(x.args[0]) == "HTTP_TRANSFER_ENCODING"
 
-        atoms_g: list[tuple[t.Any, str]] = []
-        others: list[str] = []
-        eval_nodes: list[Node] = []
-        for t_, l in cfg.guards(wn):
-            if t_.kind != "test" or t_.ast is None:
-                continue
-            ex, used = _expand_locals(t_.ast, t_, rd)
-            if H.mentions(ex, is_te):
-                atoms_g.append((_Atom(ex, t_), l))
-                eval_nodes += [t_] + used
-            else:
-                others.append(f"{norm(t_.ast)}:{l}")
-        adm, _ = H.admitted(atoms_g, is_te, ["chunked", "Chunked", "", "gzip", "identity"])
+        K_TE = "HTTP_TRANSFER_ENCODING"
+        ABSENT = object()  # sample: the request has no Transfer-Encoding header
+
+        class KeyAbsent(Exception):
+            pass
+
+        def _raise_absent() -> t.Any:
+            raise KeyAbsent()
+
+        def is_dict(x: ast.AST) -> bool:
+            return isinstance(x, ast.Name) and x.id in (env, hdict)
+
+        def te_lookup(x: ast.AST) -> tuple[str, t.Callable[[t.Any], t.Any]] | None:
+            """a read of the Transfer-Encoding entry of the environ (or of the dict the header loop filled):
+            (dict name, sample -> value of the expression)."""
+            if isinstance(x, ast.Subscript) and is_dict(x.value) and _const_str(x.slice) == K_TE:
+                return x.value.id, lambda s_: s_ if s_ is not ABSENT else _raise_absent()  # type: ignore[attr-defined]
+            if isinstance(x, ast.Call) and isinstance(x.func, ast.Attribute) and x.func.attr == "get" and is_dict(x.func.value) and 1 <= len(x.args) <= 2 and not x.keywords and _const_str(x.args[0]) == K_TE:
+                dflt = None
+                if len(x.args) == 2:
+                    if not isinstance(x.args[1], ast.Constant):
+                        return None
+                    dflt = x.args[1].value
+                return x.func.value.id, lambda s_, dflt=dflt: s_ if s_ is not ABSENT else dflt  # type: ignore[attr-defined]
+            if isinstance(x, ast.Compare) and len(x.ops) == 1 and isinstance(x.ops[0], (ast.In, ast.NotIn)) and _const_str(x.left) == K_TE:
+                c0 = x.comparators[0]
+                if isinstance(c0, ast.Call) and isinstance(c0.func, ast.Attribute) and c0.func.attr == "keys" and not c0.args:
+                    c0 = c0.func.value
+                if is_dict(c0):
+                    neg = isinstance(x.ops[0], ast.NotIn)
+                    return c0.id, lambda s_, neg=neg: (s_ is not ABSENT) != neg  # type: ignore[attr-defined]
+            return None
+
+        def te_nodes(ex: ast.AST, at: Node) -> tuple[dict[int, t.Callable[[t.Any], t.Any]], set[str], list[Node]]:
+            """the sub-expressions of a guard that carry the header value: lookups, and locals bound on every path either
+            by a lookup or by the constant that stands for an absent header (`try: te = environ[K]` / `except KeyError: te = ""`)."""
+            fns: dict[int, t.Callable[[t.Any], t.Any]] = {}
+            bases_: set[str] = set()
+            nodes_: list[Node] = []
+            for x in ast.walk(ex):
+                lk = te_lookup(x)
+                if lk is not None:
+                    fns[id(x)] = lk[1]
+                    bases_.add(lk[0])
+                elif isinstance(x, ast.Name) and isinstance(x.ctx, ast.Load) and not is_dict(x):
+                    ds = rd.reaching(at, x.id)
+                    if len(ds) < 2 or not all(d.kind == "assign" and d.index is None and d.value is not None and d.node is not None for d in ds):
+                        continue
+                    looks = [(d, te_lookup(d.value)) for d in ds if te_lookup(d.value) is not None]  # type: ignore[arg-type]
+                    consts = [d for d in ds if isinstance(d.value, ast.Constant)]
+                    if looks and len(consts) == 1 and len(looks) + 1 == len(ds):
+                        dflt = consts[0].value.value  # type: ignore[union-attr]
+                        fns[id(x)] = lambda s_, dflt=dflt: s_ if s_ is not ABSENT and s_ is not None else dflt
+                        bases_ |= {lk_[0] for _, lk_ in looks}  # type: ignore[index]
+                        nodes_ += [d.node for d, _ in looks]  # type: ignore[misc]
+            return fns, bases_, nodes_
+
+        TE_SAMPLES = ["chunked", "Chunked", "", "gzip", "identity", ABSENT]
+        fn_locals = _local_names(me.node)
+
+        def profile(node: Node) -> tuple[list[t.Any], list[tuple[t.Any, str]], list[str], list[Node], set[str]]:
+            """the dominating guards of a node, hoisted locals expanded: (Transfer-Encoding values admitted from the
+            samples, the atoms on the header value, the other conditions, the nodes where the header is looked up,
+            the dicts it is looked up in).  A condition over locals that is neither is not understood."""
+            atoms_g: list[tuple[t.Any, str]] = []
+            fns_all: dict[int, t.Callable[[t.Any], t.Any]] = {}
+            others: list[str] = []
+            eval_nodes: list[Node] = []
+            bases_: set[str] = set()
+            for t_, l in cfg.guards(node):
+                if t_.kind != "test" or t_.ast is None:
+                    continue
+                ex, used = _expand_locals(t_.ast, t_, rd, keep=(env, hdict))  # the dicts are containers, not hoisted sub-expressions
+                fns, bs, def_nodes = te_nodes(ex, t_)
+                if fns:
+                    atoms_g.append((_Atom(ex, t_), l))
+                    fns_all.update(fns)
+                    eval_nodes += [t_] + used + def_nodes
+                    bases_ |= bs
+                else:
+                    loc = sorted({x.id for x in ast.walk(ex) if isinstance(x, ast.Name) and x.id != "self" and isinstance(x.ctx, ast.Load) and x.id in fn_locals})
+                    if loc:
+                        raise AnalysisError(f"make_environ: the guard `{norm(t_.ast)}` of `{norm(node.ast)[:60]}` tests the local(s) {loc}, whose value is not followed")
+                    k_, pos_ = G.canon(ex)
+                    others.append(f"{k_}:{'T' if (l == 'T') == pos_ else 'F'}")
+            adm_: list[t.Any] = []
+            for smp in TE_SAMPLES:
+                okk = True
+                for at_, l in atoms_g:
+                    try:
+                        r_ = bool(H.ev(at_.ast, lambda x, smp=smp: (True, fns_all[id(x)](smp)) if id(x) in fns_all else (False, None)))
+                    except KeyAbsent:
+                        okk = False  # the lookup raises: the guarded statement is not reached
+                        break
+                    except H.Unknown as e:
+                        raise AnalysisError(f"guard atom `{norm(at_.ast)}` is outside the evaluable subset ({e})")
+                    except (AttributeError, TypeError):
+                        okk = False  # e.g. None.strip(): raises at run time, the guarded statement is not reached
+                        break
+                    if r_ != (l == "T"):
+                        okk = False
+                        break
+                if okk:
+                    adm_.append("<no header>" if smp is ABSENT else smp)
+            return adm_, atoms_g, sorted(others), eval_nodes, bases_
+
+        adm, atoms_g, others, eval_nodes, te_bases = profile(wn)
+        if _gids(cfg, tn) == _gids(cfg, wn):
+            same, how = True, "same dominating guard edges"
+        else:  # two separate `if`s: the same by evaluation
+            adm_t, atoms_t, others_t, nodes_t, bases_t = profile(tn)
+            same = bool(atoms_t) and adm_t == adm and others_t == others
+            how = f"flag store admitted for {adm_t} / other conditions {others_t}; wrap admitted for {adm} / other conditions {others}"
+            eval_nodes += nodes_t
+            te_bases |= bases_t
+        ctx.ob("R19.4", "wsgi.input_terminated is set under exactly the guard under which the input is de-chunked", same and isinstance(term[0][1], ast.Constant) and term[0][1].value is True,
+               f"flag store guards {_gtext(cfg, tn)}; wrap guards {_gtext(cfg, wn)}; {how}; value `{norm(term[0][1])}`", me, term[0][0], "terminated iff wrapped")
         hl = [cfg.node_of(x) for x in hloops]
         after_headers = all(h is not None and h.id not in cfg.reach(n) and cfg.edge_dominates(h, "F", n) for n in eval_nodes for h in hl)
-        okw = bool(atoms_g) and {"chunked", "Chunked"} <= set(adm) and not ({"", "gzip", "identity"} & set(adm)) and not others and after_headers
+        if merge_node is not None and env in te_bases:
+            # the headers reach the environ only with the merge: a lookup in the environ must come after it
+            after_headers = after_headers and all(n is not merge_node and cfg.node_dominates(merge_node, n) for n in eval_nodes)
+        okw = bool(atoms_g) and {"chunked", "Chunked"} <= set(adm) and not ({"", "gzip", "identity", "<no header>"} & set(adm)) and not others and after_headers
         ctx.ob("R19.4", "the input is de-chunked when Transfer-Encoding is chunked", okw,
-               f"wrap guards on the header value {[norm(a.ast) + ':' + l for a, l in atoms_g]}: admitted from the samples {adm} (required: 'chunked' in any letter case, not '' / 'gzip' / 'identity'); other conditions {others}; header looked up after the header loop: {after_headers}", me, wraps[0][0], "wrap guard is chunked transfer-encoding")
-        wv = wraps[0][1]
-        arg = wv.args[0] if isinstance(wv, ast.Call) and len(wv.args) == 1 else None
-        arg_ok = arg is not None and (is_self_attr(arg, "rfile") or (isinstance(arg, ast.Subscript) and isinstance(arg.value, ast.Name) and arg.value.id == env and _const_str(arg.slice) == "wsgi.input"))
+               f"wrap guards on the header value {[norm(a.ast) + ':' + l for a, l in atoms_g]}: admitted from the samples {adm} (required: 'chunked' in any letter case, not '' / 'gzip' / 'identity' / no header); other conditions {others}; header looked up after the header loop: {after_headers}", me, wraps[0][0], "wrap guard is chunked transfer-encoding")
+
+        def is_input(x: ast.AST | None, at: Node, depth: int = 0) -> bool:
+            """the stream stored under wsgi.input so far: the connection's read file, the environ entry, or a local holding one of them."""
+            if x is None:
+                return False
+            if is_self_attr(x, "rfile"):
+                return True
+            if isinstance(x, ast.Subscript) and isinstance(x.value, ast.Name) and x.value.id == env and _const_str(x.slice) == "wsgi.input":
+                return True
+            if isinstance(x, ast.Name) and depth < 3:
+                ds = rd.reaching(at, x.id)
+                return bool(ds) and all(d.kind == "assign" and d.index is None and d.node is not None and is_input(d.value, d.node, depth + 1) for d in ds)
+            return False
+
+        wcalls = wrap_calls.get(id(wraps[0][0]), [])
+        arg_ok = bool(wcalls)
+        for wv in wcalls:
+            arg = wv.args[0] if isinstance(wv, ast.Call) and len(wv.args) == 1 and not wv.keywords else None
+            at_ = cfg.node_of(wv) or wn
+            arg_ok = arg_ok and is_input(arg, at_)
         hdr_done = all(cfg.node_of(lp).id not in cfg.reach(wn) for lp in hloops)  # type: ignore[union-attr]
-        ctx.ob("R19.4", "the de-chunker wraps the connection's read file, after the headers were copied", arg_ok and hdr_done, f"`{norm(wv)}`; header loop not after the wrap: {hdr_done}", me, wraps[0][0], "wrap argument")
+        ctx.ob("R19.4", "the de-chunker wraps the connection's read file, after the headers were copied", arg_ok and hdr_done, f"{[norm(w) for w in wcalls]}; header loop not after the wrap: {hdr_done}", me, wraps[0][0], "wrap argument")
     return dech
 
 
@@ -1052,7 +1610,136 @@ GENERIC_NAMES = ["Accept", "X-Forwarded-For", "accept-encoding", "Host", "Conten
 UNPREFIXED = ("CONTENT_TYPE", "CONTENT_LENGTH")
 
 
-def _header_loop_rules(ctx: Ctx, me: FuncInfo, cfg: CFG, lp: ast.For, env: str, stores: list) -> None:
+READONLY_DICT_METHODS = {"get", "keys", "items", "values", "copy", "__contains__", "__getitem__"}
+
+
+def _header_dict_merge(ctx: Ctx, me: FuncInfo, cfg: CFG, lp: ast.For, env: str, hd: str, dstmt: ast.AST, dlit: ast.Dict, env_stores: list) -> Node:
+    """the header loop fills the local dict ``hd`` instead of the environ.  That is the same as filling the environ
+    when ``hd`` starts empty, is changed by the loop only, and is merged into the environ exactly once after the loop on
+    every path to the normal exit (`environ.update(hd)`, `environ |= hd`, `environ = {**environ, **hd}`,
+    `environ = environ | hd`, `environ = dict(environ, **hd)`, or `**hd` spliced into the literal) - with the header
+    entries winning, or with no earlier environ entry in the header key space (HTTP_* / CONTENT_TYPE / CONTENT_LENGTH).
+    Returns the CFG node of the merge."""
+    head = cfg.node_of(lp)
+    assert head is not None
+    inner = {id(x) for x in ast.walk(lp)}
+
+    def empty_dict(v: ast.AST | None) -> bool:
+        return (isinstance(v, ast.Dict) and not v.keys) or (isinstance(v, ast.Call) and dotted(v.func) in ("dict", "collections.OrderedDict", "OrderedDict") and not v.args and not v.keywords)
+
+    binds = astq.assigns_to(me.node, hd)
+    if len(binds) != 1 or not empty_dict(binds[0][1]) or id(binds[0][0]) in inner:
+        raise AnalysisError(f"make_environ: the header loop stores into `{hd}`, which is not a local bound once, before the loop, to an empty dict")
+    bnode = cfg.node_of(binds[0][0])
+    if bnode is None or not cfg.node_dominates(bnode, head):
+        raise AnalysisError(f"make_environ: `{norm(binds[0][0])}` does not dominate the header loop")
+
+    def nm(x: ast.AST | None, name: str) -> bool:
+        return isinstance(x, ast.Name) and x.id == name
+
+    def merge_kind(st: ast.AST) -> tuple[str, list[str]] | None:
+        """('headers' | 'environ', constant environ keys written after the header entries) - who wins on a common key."""
+        if isinstance(st, ast.Expr) and isinstance(st.value, ast.Call):
+            c = st.value
+            if isinstance(c.func, ast.Attribute) and c.func.attr == "update" and nm(c.func.value, env):
+                if (len(c.args) == 1 and not c.keywords and nm(c.args[0], hd)) or (not c.args and len(c.keywords) == 1 and c.keywords[0].arg is None and nm(c.keywords[0].value, hd)):
+                    return "headers", []
+            return None
+        if isinstance(st, ast.AugAssign) and isinstance(st.op, ast.BitOr) and nm(st.target, env) and nm(st.value, hd):
+            return "headers", []
+        if isinstance(st, (ast.Assign, ast.AnnAssign)) and st.value is not None:
+            tgs = st.targets if isinstance(st, ast.Assign) else [st.target]
+            if len(tgs) != 1 or not nm(tgs[0], env):
+                return None
+            v = st.value
+            if st is dstmt:
+                pos = [i for i, (k, x) in enumerate(zip(dlit.keys, dlit.values)) if k is None and nm(x, hd)]
+                if len(pos) != 1:
+                    return None
+                late = [k for k in dlit.keys[pos[0] + 1 :]]
+                if any(k is None or _const_str(k) is None for k in late):
+                    raise AnalysisError("make_environ: an entry written after the spliced header dict has no constant key")
+                return ("environ" if late else "headers"), [_const_str(k) or "" for k in late]
+            if isinstance(v, ast.Dict) and len(v.keys) == 2 and all(k is None for k in v.keys):
+                if nm(v.values[0], env) and nm(v.values[1], hd):
+                    return "headers", []
+                if nm(v.values[0], hd) and nm(v.values[1], env):
+                    return "environ", ["*"]
+            if isinstance(v, ast.BinOp) and isinstance(v.op, ast.BitOr):
+                if nm(v.left, env) and nm(v.right, hd):
+                    return "headers", []
+                if nm(v.left, hd) and nm(v.right, env):
+                    return "environ", ["*"]
+            if isinstance(v, ast.Call) and dotted(v.func) == "dict" and len(v.args) == 1 and nm(v.args[0], env) and len(v.keywords) == 1 and v.keywords[0].arg is None and nm(v.keywords[0].value, hd):
+                return "headers", []
+        return None
+
+    merges = [(st, mk) for st in walk_no_nested(me.node) if id(st) not in inner and isinstance(st, ast.stmt) and (mk := merge_kind(st)) is not None]
+    INST = "the headers collected in a separate dict reach the environ: merged once, after the header loop, on every path"
+    outside = [n for n in ast.walk(me.node) if isinstance(n, ast.Name) and n.id == hd and isinstance(n.ctx, ast.Load) and id(n) not in inner]
+    if not merges:
+        if not outside:
+            ctx.ob("R19.4", INST, False, f"`{hd}` is filled by the header loop and never used again", me, lp, "header dict merged into environ")
+            return head
+        raise AnalysisError(f"make_environ: the header loop fills `{hd}`; no recognised merge into `{env}` found (used by `{norm(astq.stmt_of(me, outside[0]) or outside[0])[:80]}`)")
+    if len(merges) > 1:
+        raise AnalysisError(f"make_environ: `{hd}` is merged into `{env}` {len(merges)} times (not modelled)")
+    mst, (direction, late) = merges[0]
+    in_merge = {id(x) for x in ast.walk(mst)}
+    # every other use of the header dict outside the loop must be a read
+    for n in outside:
+        if id(n) in in_merge:
+            continue
+        par = astq.parent(n)
+        read_only = (
+            (isinstance(par, ast.Attribute) and par.attr in READONLY_DICT_METHODS and isinstance(astq.parent(par), ast.Call))
+            or (isinstance(par, ast.Subscript) and par.value is n and isinstance(par.ctx, ast.Load))
+            or (isinstance(par, ast.Compare) and any(c is n for c in par.comparators) and all(isinstance(o, (ast.In, ast.NotIn)) for o in par.ops))
+        )
+        if not read_only:
+            raise AnalysisError(f"make_environ: the header dict `{hd}` is used by `{norm(astq.stmt_of(me, n) or n)[:80]}` outside the header loop (not modelled)")
+    for st in ast.walk(me.node):
+        if isinstance(st, ast.Delete) and any(nm(x, hd) for tg in st.targets for x in ast.walk(tg)):
+            raise AnalysisError(f"make_environ: `{norm(st)}` (not modelled)")
+        if id(st) not in inner and isinstance(st, (ast.Assign, ast.AugAssign, ast.AnnAssign)):
+            tgs = st.targets if isinstance(st, ast.Assign) else [st.target]
+            if any(isinstance(x, ast.Subscript) and nm(x.value, hd) for tg in tgs for x in ast.walk(tg)):
+                raise AnalysisError(f"make_environ: the header dict is changed outside the header loop by `{norm(st)}` (not modelled)")
+    M = cfg.node_of(mst)
+    assert M is not None
+    again: set[int] = set()
+    for s_, _ in M.succs:
+        again |= cfg.reach(s_)
+    after = cfg.edge_dominates(head, "F", M) and M.id not in again and head.id not in cfg.reach(M)
+    always = all(cfg.all_paths_pass(s_, [cfg.exit], [M]) for s_ in cfg.succ(head, "F"))
+    ctx.ob("R19.4", INST, after and always, f"`{norm(mst)[:80]}`: after the header loop, executed once: {after}; on every path from the loop to the normal exit: {always}", me, mst, "header dict merged into environ")
+    # who wins on a common key
+    clash: list[str] = []
+    if direction == "environ":
+        early: list[str | None] = list(late) if late != ["*"] else [(_const_str(k) if k is not None else None) for k in dlit.keys]
+        if late == ["*"]:
+            for s, k, v in env_stores:
+                n = cfg.node_of(s)
+                if n is not None and M.id in cfg.reach(n):
+                    early.append(_const_str(k))
+        if any(k is None for k in early):
+            raise AnalysisError("make_environ: the environ has entries without a constant key when the header dict is merged under it")
+        clash = sorted({k for k in early if k is not None and (k.startswith("HTTP_") or k in UNPREFIXED)})
+    ctx.ob("R19.4", "a received header is not shadowed by an entry the environ already holds when the header dict is merged", not clash,
+           f"`{norm(mst)[:80]}`: on a common key the {'header dict' if direction == 'headers' else 'earlier environ entry'} wins; earlier entries in the header key space: {clash}", me, mst, "header dict merge order")
+    return M
+
+
+def _helper_of(c: ast.Call, me: FuncInfo) -> ast.AST | None:
+    """the module-level function / handler method a call in make_environ refers to."""
+    if isinstance(c.func, ast.Name):
+        return next((n for n in me.module.tree.body if isinstance(n, ast.FunctionDef) and n.name == c.func.id), None)
+    if isinstance(c.func, ast.Attribute) and is_self_attr(c.func) and me.cls is not None and c.func.attr in me.cls.methods:
+        return me.cls.methods[c.func.attr].node
+    return None
+
+
+def _header_loop_rules(ctx: Ctx, me: FuncInfo, cfg: CFG, lp: ast.For, env: str, stores: list, untouched: str | None = None, untouched_keys: frozenset[str] | None = None) -> None:
     """one iteration of the header loop, evaluated on every path for sample header names (see _c19_helpers.hval): which
     environ key receives which value.  Decided per (name, `an earlier header of that name was stored` yes/no)."""
     kname, vname = lp.target.elts[0].id, lp.target.elts[1].id  # type: ignore[union-attr]
@@ -1065,12 +1752,15 @@ def _header_loop_rules(ctx: Ctx, me: FuncInfo, cfg: CFG, lp: ast.For, env: str, 
     for c in astq.calls(lp, nested=False):
         if isinstance(c.func, ast.Attribute) and isinstance(c.func.value, ast.Name) and c.func.value.id == env and c.func.attr not in ("get", "keys", "__contains__"):
             raise AnalysisError(f"make_environ: the environ is changed or read by `{norm(c)}` inside the header loop (not modelled)")
+        if untouched is not None and isinstance(c.func, ast.Attribute) and isinstance(c.func.value, ast.Name) and c.func.value.id == untouched and c.func.attr not in READONLY_DICT_METHODS:
+            raise AnalysisError(f"make_environ: `{norm(c)}` inside the header loop, which fills `{env}` (not modelled)")
     for s in ast.walk(lp):
-        if isinstance(s, (ast.AugAssign, ast.Delete)) and any(isinstance(x, ast.Name) and x.id == env for x in ast.walk(s.target if isinstance(s, ast.AugAssign) else ast.Tuple(elts=s.targets))):
+        if isinstance(s, (ast.AugAssign, ast.Delete)) and any(isinstance(x, ast.Name) and x.id in (env, untouched) for x in ast.walk(s.target if isinstance(s, ast.AugAssign) else ast.Tuple(elts=s.targets))):
             raise AnalysisError(f"make_environ: `{norm(s)}` inside the header loop (not modelled)")
     # sample names: generic ones plus every name a string constant of the loop could be compared with
     samples = list(GENERIC_NAMES)
-    for x in ast.walk(lp):
+    called = [fn for c in astq.calls(lp, nested=False) for fn in [_helper_of(c, me)] if fn is not None]
+    for x in [y for root in [lp] + called for y in ast.walk(root)]:
         if isinstance(x, ast.Constant) and isinstance(x.value, str) and len(x.value) > 1 and x.value.strip("_-, \r\n"):
             cst = x.value
             for v in (cst, cst.replace("_", "-"), cst.removeprefix("HTTP_"), cst.removeprefix("HTTP_").replace("_", "-")):
@@ -1078,7 +1768,32 @@ def _header_loop_rules(ctx: Ctx, me: FuncInfo, cfg: CFG, lp: ast.For, env: str, 
                     if w and w not in samples:
                         samples.append(w)
     it_paths = H.loop_iteration_paths(cfg, head)
+    # pure helpers the loop may call (name canonicalisation moved into a function): module-level functions and methods of the handler
+    helpers: dict[str, ast.AST] = {n.name: n for n in me.module.tree.body if isinstance(n, ast.FunctionDef)}
+    if me.cls is not None:
+        helpers.update({f"self.{nm}": fi.node for nm, fi in me.cls.methods.items() if isinstance(fi.node, ast.FunctionDef)})
+    # constants the loop refers to: locals bound once, outside the loop, to a constant expression; module-level constants
+    consts: dict[str, t.Any] = {}
+    fold_m = _folder_of(ctx, me)
+    assigned_in_loop = {x.id for x in ast.walk(lp) if isinstance(x, ast.Name) and isinstance(x.ctx, ast.Store)}
+    for nm_ in sorted({x.id for x in ast.walk(lp) if isinstance(x, ast.Name) and isinstance(x.ctx, ast.Load)} - assigned_in_loop - {env, "self"}):
+        binds_ = astq.assigns_to(me.node, nm_)
+        try:
+            if len(binds_) == 1 and binds_[0][1] is not None:
+                v_ = H.ev(binds_[0][1], lambda x: (False, None))
+            elif not binds_ and nm_ not in me.params:
+                v_ = fold_m(ast.Name(id=nm_, ctx=ast.Load()))
+                v_ = tuple(v_) if isinstance(v_, list) else frozenset(v_) if isinstance(v_, (set, frozenset)) else v_
+            else:
+                continue
+        except Exception:
+            continue
+        if isinstance(v_, (str, tuple, frozenset)):
+            consts[nm_] = v_
     res = {k: {"ok": True, "fact": "", "n": 0} for k in ("skip", "store", "canon", "prefix", "join")}
+    not_followed: list[str] = []
+    undecided: dict[int, str] = {}
+    loop_names = {x.id for x in ast.walk(lp) if isinstance(x, ast.Name) and isinstance(x.ctx, ast.Store)}
 
     def fail(k: str, fact: str) -> None:
         if res[k]["ok"]:
@@ -1097,7 +1812,9 @@ def _header_loop_rules(ctx: Ctx, me: FuncInfo, cfg: CFG, lp: ast.For, env: str, 
             for p in it_paths:
                 if p[-1][0] is cfg.raise_exit:
                     continue
-                vals: dict[str, t.Any] = {kname: raw, vname: [H.HV]}
+                vals: dict[str, t.Any] = {**consts, kname: raw, vname: [H.HV], "__helpers__": helpers, "__present__": present}
+                if untouched is not None and untouched_keys is not None:
+                    vals["__other_dicts__"] = {untouched: untouched_keys}
                 cond = lambda x, vals=vals, present=present: H.hcond(x, vals, env, present)  # noqa: E731
                 done: list[tuple[t.Any, t.Any]] = []
                 feasible = True
@@ -1111,6 +1828,16 @@ def _header_loop_rules(ctx: Ctx, me: FuncInfo, cfg: CFG, lp: ast.For, env: str, 
                             if c is not None and c != (label == "T"):
                                 feasible = False
                                 break
+                            if c is None and id(a) not in undecided:
+                                # followed on both edges.  Deliberately so for the truthiness of an earlier value of the
+                                # key; a test of the header's own name / value that cannot be decided is not understood
+                                core = a
+                                while isinstance(core, ast.UnaryOp) and isinstance(core.op, ast.Not):
+                                    core = core.operand
+                                v_ = H.hval(core, vals, env, cond) if isinstance(core, (ast.Name, ast.Call, ast.Subscript)) else None
+                                earlier = isinstance(v_, list) and len(v_) == 1 and v_[0][0] == "ENV"
+                                if not earlier and {x.id for x in ast.walk(a) if isinstance(x, ast.Name)} & loop_names:
+                                    undecided[id(a)] = f"`{norm(a)}` for the header name {raw!r}"
                         continue
                     if node.kind != "stmt" or id(a) not in inner:
                         continue
@@ -1146,6 +1873,12 @@ def _header_loop_rules(ctx: Ctx, me: FuncInfo, cfg: CFG, lp: ast.For, env: str, 
                     if done:
                         fail("skip", f"stored as {[show(k) for k, _ in done]}; {where}")
                     continue
+                # an expression outside the evaluated subset: a transformation of the header's own name / value that is not
+                # followed counts as "not stored as received" (below); anything else (a lookup elsewhere, a call) is undecided
+                unk = [x for kv in done for x in kv if isinstance(x, list) and any(tk[0] == "?" and not (set(re.findall(r"[A-Za-z_][A-Za-z_0-9]*", str(tk[1]))) & loop_names) for tk in x)]
+                if unk:
+                    not_followed.append(f"{show(unk[0])}; {where}")
+                    continue
                 res["store"]["n"] += 1
                 if len(done) != 1:
                     fail("store", f"{len(done)} environ stores {[show(k) for k, _ in done]} (expected one); {where}")
@@ -1174,6 +1907,10 @@ def _header_loop_rules(ctx: Ctx, me: FuncInfo, cfg: CFG, lp: ast.For, env: str, 
         "prefix": ("CONTENT_TYPE and CONTENT_LENGTH stay unprefixed, every other name gets HTTP_", "HTTP_ prefix rule"),
         "join": ("a first header is stored as received, a repeated header is joined as `<earlier>,<later>`", "repeated header join"),
     }
+    if undecided:
+        raise AnalysisError(f"make_environ: header loop: cannot decide the condition {next(iter(undecided.values()))}")
+    if not_followed and all(x["ok"] for x in res.values()):
+        raise AnalysisError(f"make_environ: header loop: cannot evaluate what is stored: {not_followed[0]}")
     for k, (inst, cons) in text.items():
         r = res[k]
         if not r["n"] and all(x["ok"] for x in res.values()):
@@ -1181,7 +1918,16 @@ def _header_loop_rules(ctx: Ctx, me: FuncInfo, cfg: CFG, lp: ast.For, env: str, 
         ctx.ob("R19.4", inst, bool(r["ok"]), r["fact"] or f"{r['n']} (sample name, path) combinations over {len(samples)} names and {len(it_paths)} iteration paths, all as required", me, lp, cons)
 
 
-def _expand_locals(e: ast.AST, at: Node, rd: ReachingDefs, depth: int = 3, only_if: t.Callable[[ast.AST], bool] | None = None) -> tuple[ast.AST, list[Node]]:
+def _local_names(fn: ast.AST) -> set[str]:
+    """names bound in a function (parameters, assignment / loop / with / walrus targets)."""
+    out = {a.arg for a in fn.args.posonlyargs + fn.args.args + fn.args.kwonlyargs} if isinstance(fn, (ast.FunctionDef, ast.AsyncFunctionDef)) else set()
+    for n in walk_no_nested(fn):
+        if isinstance(n, ast.Name) and isinstance(n.ctx, (ast.Store, ast.Del)):
+            out.add(n.id)
+    return out
+
+
+def _expand_locals(e: ast.AST, at: Node, rd: ReachingDefs, depth: int = 3, only_if: t.Callable[[ast.AST], bool] | None = None, keep: t.Collection[str] = ()) -> tuple[ast.AST, list[Node]]:
     """copy of ``e`` in which every local with a single plain assignment reaching ``at`` is replaced by the assigned
     expression (hoisted sub-expression), provided no name used in that expression is rebound in between.  Also returns
     the CFG nodes of the definitions used."""
@@ -1190,7 +1936,7 @@ def _expand_locals(e: ast.AST, at: Node, rd: ReachingDefs, depth: int = 3, only_
     def sub(x: ast.AST, at_: Node, d: int) -> ast.AST:
         class T(ast.NodeTransformer):
             def visit_Name(self, n: ast.Name) -> ast.AST:  # noqa: N802
-                if not isinstance(n.ctx, ast.Load) or d <= 0:
+                if not isinstance(n.ctx, ast.Load) or d <= 0 or n.id in keep:
                     return n
                 defs = list(rd.reaching(at_, n.id))
                 if len(defs) != 1:
@@ -1264,7 +2010,8 @@ def _dechunker_rules(ctx: Ctx, cls: ClassInfo) -> None:
     ctx.ob("R19.3", "every read of the de-chunked stream goes through readinto (io.RawIOBase readers not overridden)", not over and any(b.endswith("RawIOBase") for b in bases), f"overridden: {over}; bases {bases}", cls.fq, None, "derived readers are RawIOBase's")
     # slots
     ip = [p for p in init.params[1:]]
-    under = [tg.attr for s in walk_no_nested(init.node) if isinstance(s, ast.Assign) and isinstance(s.value, ast.Name) and s.value.id in ip for tg in s.targets if is_self_attr(tg)]
+    inits = _attr_bindings(init.node)
+    under = [a for a, v in inits.items() if isinstance(v, ast.Name) and v.id in ip]
     if len(under) != 1:
         raise AnalysisError(f"{cls.name}.__init__: expected one attribute holding the underlying stream, found {under}")
     under_attr = under[0]
@@ -1280,32 +2027,48 @@ def _dechunker_rules(ctx: Ctx, cls: ClassInfo) -> None:
         ri = FuncInfo(ri.module, xnode, ri.qualname, ri.cls)
         ctx.saw(*[cls.methods[nm] for nm in sorted(inlined)])
     res = [tg.attr for s in walk_no_nested(ri.node) if isinstance(s, ast.Assign) and _self_call(s.value, lr.name) for tg in s.targets if is_self_attr(tg)]
+    if not res:
+        # the size read is kept in a local until it is stored (`size = self.read_chunk_len()` ... `self._len = size`)
+        xnode2, pending_attr = H.fold_pending_header(ri.node, lr.name)
+        if pending_attr is not None:
+            ri = FuncInfo(ri.module, xnode2, ri.qualname, ri.cls)
+            res = [pending_attr]
     if len(set(res)) != 1:
         raise AnalysisError(f"readinto: expected `self.<residual> = self.{lr.name}()`, found targets {res}")
     residual = res[0]
-    done = sorted({tg.attr for s in walk_no_nested(ri.node) if isinstance(s, ast.Assign) and isinstance(s.value, ast.Constant) and s.value.value is True for tg in s.targets if is_self_attr(tg)})
+    # the end-of-body flag: the attribute readinto assigns (besides the residual length) that a fresh stream has as False
+    ri_binds = _attr_bindings(ri.node)
+    done = sorted(a for a in ri_binds if a != residual and isinstance(inits.get(a), ast.Constant) and inits[a].value is False)  # type: ignore[attr-defined]
     if len(done) != 1:
-        raise AnalysisError(f"readinto: expected one end-of-body flag set to True, found {done}")
+        raise AnalysisError(f"readinto: expected one end-of-body flag (False on a fresh stream, assigned in readinto), found {done}")
     done_attr = done[0]
     if len(ri.params) < 2:
         raise AnalysisError("readinto has no buffer parameter")
     buf = ri.params[1]
     rets = astq.returns_of(ri.node)
-    counters = {r.value.id if isinstance(r.value, ast.Name) else None for r in rets}
-    if len(counters) != 1 or None in counters:
-        ctx.ob("R19.3", "readinto returns its byte counter", False, f"returns {[norm(r) for r in rets]}", ri, rets[0] if rets else ri.node, "readinto returns counter")
-        raise AnalysisError("readinto: no single returned counter name")
-    counter = counters.pop()
-    assert counter is not None
+    # the count returned: one expression on every return - a local, or arithmetic over locals / len(<buffer>) / integers
+    def countable(e: ast.AST | None) -> bool:
+        if isinstance(e, ast.Name):
+            return True
+        if isinstance(e, ast.Constant):
+            return isinstance(e.value, int) and not isinstance(e.value, bool)
+        if isinstance(e, ast.BinOp) and isinstance(e.op, (ast.Add, ast.Sub)):
+            return countable(e.left) and countable(e.right)
+        return isinstance(e, ast.Call) and dotted(e.func) == "len" and len(e.args) == 1 and isinstance(e.args[0], ast.Name) and not e.keywords
+
+    if not rets or len({norm(r.value) if r.value is not None else None for r in rets}) != 1 or not countable(rets[0].value) or isinstance(rets[0].value, ast.Constant):
+        raise AnalysisError(f"readinto: no single returned count expression (returns {sorted({norm(r) for r in rets})})")
+    counter_expr = rets[0].value
+    assert counter_expr is not None
+    counter = norm(counter_expr)
     whiles = [n for n in walk_no_nested(ri.node) if isinstance(n, (ast.While, ast.For))]
     if len(whiles) != 1 or not isinstance(whiles[0], ast.While):
         raise AnalysisError("readinto: expected exactly one while loop")
     loop = whiles[0]
     cfg = cfg_of(ri)
-    sym = H.LoopSym(buf, counter, residual, under_attr, lr.name)
+    sym = H.LoopSym(buf, counter_expr, residual, under_attr, lr.name)
 
     # attribute initial values
-    inits = {tg.attr: s.value for s in walk_no_nested(init.node) if isinstance(s, ast.Assign) for tg in s.targets if is_self_attr(tg)}
     ok = isinstance(inits.get(residual), ast.Constant) and inits[residual].value == 0 and isinstance(inits.get(done_attr), ast.Constant) and inits[done_attr].value is False  # type: ignore[attr-defined]
     ctx.ob("R19.3", "a fresh stream has no residual chunk and is not finished", ok, f"{residual} = {norm(inits[residual]) if residual in inits else None}; {done_attr} = {norm(inits[done_attr]) if done_attr in inits else None}", init, init.node, "initial state")
     # other writers of the state
@@ -1318,7 +2081,7 @@ def _dechunker_rules(ctx: Ctx, cls: ClassInfo) -> None:
         if w:
             ctx.ob("R19.3", "residual length and end flag are written only by readinto", False, f"{fi.qualname}: {[norm(x) for x in w]}", fi, w[0], f"state written in {nm}")
 
-    _size_reader_rules(ctx, lr, under_attr)
+    _size_reader_rules(ctx, lr, under_attr, ri, sym)
 
     # ---- explicit raises of readinto ------------------------------------
     for r in astq.raises_of(ri.node):
@@ -1327,14 +2090,41 @@ def _dechunker_rules(ctx: Ctx, cls: ClassInfo) -> None:
 
     # ---- protocol typestate ------------------------------------------------
     ztests: dict[int, str] = {}
+    unrefined: list[Node] = []  # tests of the residual length that are not followed: a failing protocol check is then undecided
+    rdri = ReachingDefs(cfg, ri.params)
+    res_writers = [n for n in cfg.nodes if n.kind == "stmt" and isinstance(n.ast, (ast.Assign, ast.AugAssign, ast.AnnAssign)) and any(sym.is_res(x) and isinstance(x.ctx, ast.Store) for x in ast.walk(n.ast))]
+
+    def res_copy(name: ast.Name, at: Node) -> bool:
+        """the local holds the residual length as it is now: bound by `<name> = self.<residual>` (all reaching
+        definitions), with no write of the residual between that binding and this use."""
+        ds = rdri.reaching(at, name.id)
+        if not ds or not all(d.kind in ("assign", "walrus") and d.index is None and d.node is not None and d.value is not None and sym.is_res(d.value) for d in ds):
+            return False
+        for d in ds:
+            for w in res_writers:
+                after_def = any(w.id in cfg.reach(s_, avoid_nodes=[d.node]) for s_, _ in d.node.succs) or w is d.node  # type: ignore[union-attr]
+                if after_def and w is not d.node and any(at.id in cfg.reach(s_, avoid_nodes=[d.node]) for s_, _ in w.succs):
+                    return False
+        return True
+
     for n in cfg.nodes:
-        if n.kind == "test" and n.ast is not None and H.mentions(n.ast, sym.is_res):
-            try:
-                vals = [bool(H.ev(n.ast, lambda x, v=v: (True, v) if sym.is_res(x) else (False, None))) for v in (0, 1, 7)]
-            except H.Unknown:
-                continue
-            if vals[1] == vals[2] != vals[0]:
-                ztests[n.id] = "T" if vals[0] else "F"
+        if n.kind != "test" or n.ast is None:
+            continue
+        copies = {id(x) for x in ast.walk(n.ast) if isinstance(x, ast.Name) and isinstance(x.ctx, ast.Load) and res_copy(x, n)}
+        is_r = lambda x, copies=copies: sym.is_res(x) or id(x) in copies  # noqa: E731
+        if not H.mentions(n.ast, is_r):
+            # a local computed from the residual length at some earlier point (not a current copy) tested against a constant
+            stale = [x.id for x in ast.walk(n.ast) if isinstance(x, ast.Name) and isinstance(x.ctx, ast.Load) and any(d.value is not None and sym.is_res(d.value) for d in rdri.reaching(n, x.id))]
+            if stale:
+                unrefined.append(n)
+            continue
+        try:
+            vals = [bool(H.ev(n.ast, lambda x, v=v, is_r=is_r: (True, v) if is_r(x) else (False, None))) for v in (0, 1, 7)]
+        except H.Unknown:
+            unrefined.append(n)
+            continue
+        if vals[1] == vals[2] != vals[0]:
+            ztests[n.id] = "T" if vals[0] else "F"
     ctx.floor("R19.3", "tests of the residual length against zero", len(ztests), 2)
 
     def has_call(n: Node, pred: t.Callable[[ast.AST], bool]) -> bool:
@@ -1361,22 +2151,45 @@ def _dechunker_rules(ctx: Ctx, cls: ClassInfo) -> None:
     is_term_read = lambda x: sym.under_call(x, "readline") or any(_self_call(x, nm) for nm in term_helpers)  # noqa: E731
     t_nodes = [n for n in cfg.nodes if has_call(n, is_term_read)]
     helper_calls = {n.id for n in t_nodes if has_call(n, lambda x: any(_self_call(x, nm) for nm in term_helpers))}
-    d_nodes = [n for n in cfg.nodes if n.kind == "stmt" and isinstance(n.ast, ast.Assign) and isinstance(n.ast.value, ast.Constant) and n.ast.value.value is True and any(is_self_attr(tg, done_attr) for tg in n.ast.targets)]
+    # assignments of the end flag: `= True`, or a boolean expression of the residual length (`= self._len == 0`)
+    d_truth: dict[int, dict[str, bool]] = {}  # node id -> value assigned when the residual is zero / non-zero
+    d_nodes = []
+    for n in cfg.nodes:
+        if n.kind != "stmt" or not isinstance(n.ast, (ast.Assign, ast.AnnAssign)) or n.ast.value is None:
+            continue
+        tgs = n.ast.targets if isinstance(n.ast, ast.Assign) else [n.ast.target]
+        if not any(is_self_attr(x, done_attr) and isinstance(x.ctx, ast.Store) for tg in tgs for x in ast.walk(tg)):
+            continue
+        if not any(is_self_attr(tg, done_attr) for tg in tgs):
+            raise AnalysisError(f"readinto: the end flag is assigned by `{norm(n.ast)}` (tuple assignment: not modelled)")
+        v_ = n.ast.value
+        try:
+            tv = [bool(H.ev(v_, lambda x, k=k: (True, k) if sym.is_res(x) else (False, None))) for k in (0, 1, 7)]
+        except H.Unknown:
+            raise AnalysisError(f"readinto: the end flag is assigned `{norm(v_)}`, which is not a constant or a test of the residual length")
+        if tv[1] != tv[2]:
+            raise AnalysisError(f"readinto: the end flag is assigned `{norm(v_)}`, which distinguishes non-zero residual lengths")
+        d_truth[n.id] = {"Z": tv[0], "NZ": tv[1]}
+        d_nodes.append(n)
+    if not any(tv_["Z"] or tv_["NZ"] for tv_ in d_truth.values()):
+        raise AnalysisError("readinto: the end flag is never set")
     ctx.floor("R19.3", "chunk header reads in readinto", len(h_nodes), 1)
     if stray_hdr:
+        discarded = stray_hdr[0].kind == "test" or isinstance(stray_hdr[0].ast, ast.Expr)
+        if not discarded:  # kept somewhere this analysis does not follow (a local that is not stored once on every path, a tuple, ...)
+            raise AnalysisError(f"readinto: the chunk size read by `{stray_hdr[0].text()[:70]}` is not stored directly as the residual length (not followed)")
         ctx.ob("R19.3", "the chunk size read is stored as the residual length", False, f"`{stray_hdr[0].text()}`", ri, stray_hdr[0].ast, "header read not stored")
     h_ids, t_ids = {n.id for n in h_nodes}, {n.id for n in t_nodes}
+    w_ids = {n.id for n in res_writers}
 
     def effect(n: Node, s: tuple) -> list[tuple]:
         z, owed, fresh = s
         a = n.ast
         if n.id in h_ids:
             return [("Z", True, True), ("NZ", True, True)]
-        if n.kind == "stmt" and isinstance(a, ast.Assign) and any(sym.is_res(tg) for tg in a.targets):
-            if isinstance(a.value, ast.Constant) and a.value.value == 0:
+        if n.id in w_ids:  # any other write of the residual (plain, augmented, annotated, inside a tuple assignment)
+            if isinstance(a, ast.Assign) and any(sym.is_res(tg) for tg in a.targets) and isinstance(a.value, ast.Constant) and a.value.value == 0:
                 return [("Z", owed, False)]
-            return [("Z", owed, False), ("NZ", owed, False)]
-        if n.kind == "stmt" and isinstance(a, ast.AugAssign) and sym.is_res(a.target):
             return [("Z", owed, False), ("NZ", owed, False)]
         if n.id in t_ids:
             return [(z, False, fresh)]
@@ -1389,9 +2202,11 @@ def _dechunker_rules(ctx: Ctx, cls: ClassInfo) -> None:
 
     at, parent = H.typestate(cfg, [("Z", False, False), ("NZ", True, False)], effect, edge_ok)
 
-    def check(nodes: list[Node], pred: t.Callable[[tuple], bool], inst: str, cons: str, need: str) -> None:
+    def check(nodes: list[Node], pred: t.Callable[..., bool], inst: str, cons: str, need: str, with_node: bool = False) -> None:
         for n in nodes:
-            badstates = sorted(s for s in at[n.id] if not pred(s))
+            badstates = sorted(s for s in at[n.id] if not (pred(s, n) if with_node else pred(s)))
+            if badstates and unrefined:
+                raise AnalysisError(f"readinto: `{n.text()[:60]}`: {cons} cannot be decided: the test `{unrefined[0].text()[:60]}` of the residual length is not followed")
             fact = f"`{n.text()[:60]}`: reachable abstract states (residual zero?, terminator owed, size fresh from header) {sorted(at[n.id])}; required: {need}"
             if badstates:
                 fact += f"; counterexample path: {H.witness(cfg, parent, n, badstates[0])}"
@@ -1400,19 +2215,20 @@ def _dechunker_rules(ctx: Ctx, cls: ClassInfo) -> None:
     check(h_nodes, lambda s: s[0] == "Z" and not s[1], "a chunk header is read only when the previous chunk is consumed and its terminator was read", "header read state", "residual zero and no terminator owed")
     check(t_nodes, lambda s: s[0] == "Z" and s[1], "the chunk terminator is read exactly when the residual length has reached zero (never while chunk bytes remain)", "terminator read state", "residual zero and a terminator owed")
     check([cfg.exit], lambda s: s[1] == (s[0] == "NZ"), "when readinto returns, a terminator is still owed exactly if chunk bytes remain", "exit state", "terminator owed <=> residual non-zero")
-    check(d_nodes, lambda s: s[0] == "Z" and s[2], "the end flag is set only on a zero chunk size freshly read from a header", "end flag state", "residual zero, fresh from a header")
+    check(d_nodes, lambda s, n: not d_truth[n.id][s[0]] or (s[0] == "Z" and s[2]), "the end flag is set only on a zero chunk size freshly read from a header", "end flag state", "residual zero, fresh from a header", with_node=True)
 
     # terminator validation (in readinto itself, or inside the helper that reads the terminator)
     for tn in t_nodes:
         if tn.id in helper_calls:
             continue  # validated where the line is read: see _terminator_helper
-        okt, factt, site = _terminator_validated(cfg, tn, sym, in_loop=True)
+        okt, factt, site = _terminator_validated(cfg, tn, sym, in_loop=True, fold=_folder_of(ctx, ri))
         ctx.ob("R19.3", "a missing or wrong chunk terminator raises OSError", okt, factt, ri, site, "terminator validated")
 
     # ---- per-iteration arithmetic ---------------------------------------
     head = [n for n in cfg.nodes if n.kind == "join" and n.ast is loop]
     if len(head) != 1:
         raise AnalysisError("readinto: loop head not found in the CFG")
+    sym.seed_invariants(ri.node, loop, cfg, head[0])
     it_paths = H.paths(cfg, head[0], [head[0], cfg.exit, cfg.raise_exit])
     lb = H.Lin.atom(f"len({buf})")
     per_store: dict[str, dict[str, t.Any]] = {}
@@ -1460,7 +2276,7 @@ def _dechunker_rules(ctx: Ctx, cls: ClassInfo) -> None:
             bproblems = []
             if not H.prove_nonneg(lb - s.hi, s.facts):
                 bproblems.append(f"cannot show store end {s.hi} <= len({buf})")
-            if not H.prove_nonneg(s.lo, list(s.facts) + [H.Lin.atom(counter)]):
+            if not H.prove_nonneg(s.lo, list(s.facts) + [sym.pos0()]):
                 bproblems.append(f"cannot show store start {s.lo} >= 0")
             if s.requested is not None and not H.prove_nonneg(s.res_at - s.requested, s.facts):
                 bproblems.append(f"cannot show requested {s.requested} <= residual {s.res_at}")
@@ -1487,47 +2303,139 @@ def _dechunker_rules(ctx: Ctx, cls: ClassInfo) -> None:
     ctx.ob("R19.3", "an iteration that stores nothing leaves residual length and count unchanged and requests no chunk bytes", idle_ok, idle_fact or f"{len(it_paths)} iteration paths", ri, loop, "idle iteration")
     ctx.ob("R19.3", "every slice store into the caller's buffer is length-exact (a short read of a truncated chunk must raise OSError, not splice)", exact_ok, "; ".join(exact_fact) or "every stored source has a checked length", ri, ri.node, "buffer stores length-exact")
     # counter starts at zero
-    cdefs = [v for s, v in astq.assigns_to(ri.node, counter) if not any(s is x for x in ast.walk(loop))]
-    ctx.ob("R19.3", "the returned count starts at zero", len(cdefs) == 1 and isinstance(cdefs[0], ast.Constant) and cdefs[0].value == 0, f"`{counter}` initialised by {[norm(v) for v in cdefs if v is not None]}", ri, ri.node, "count starts at zero")
+    entry = sym.pos_entry()
+    ctx.ob("R19.3", "the returned count starts at zero", entry.is_zero(), f"`{counter}` on entering the loop: {entry} (locals bound before the loop: { {k: str(v) for k, v in {**sym.pre_env, **sym.entry_env}.items()} })", ri, ri.node, "count starts at zero")
 
 
-def _terminator_validated(cfg: CFG, tn: Node, sym: "H.LoopSym", in_loop: bool) -> tuple[bool, str, ast.AST | None]:
-    """the line read at node ``tn`` is compared with a set of line terminators (CRLF and LF among them, nothing but line
-    terminators) and every other value leads to `raise OSError` without reaching the normal exit (or, inside the copy
-    loop, the next iteration)."""
+def _tuple_part(stmt: ast.AST, value: ast.AST | None, name: str) -> ast.AST | None:
+    """the value a name receives in `a, b = x, y` (astq.assigns_to reports None for tuple targets)."""
+    if value is None and isinstance(stmt, ast.Assign) and isinstance(stmt.value, (ast.Tuple, ast.List)):
+        for tg in stmt.targets:
+            if isinstance(tg, (ast.Tuple, ast.List)) and len(tg.elts) == len(stmt.value.elts):
+                for e, x in zip(tg.elts, stmt.value.elts):
+                    if isinstance(e, ast.Name) and e.id == name and not isinstance(x, ast.Starred):
+                        return x
+    return value
+
+
+def _attr_bindings(fn: ast.AST) -> dict[str, ast.AST]:
+    """`self.<attr> = <value>` bindings of a function: plain, annotated, chained and pairwise tuple assignments
+    (an attribute bound twice, or by unpacking a non-tuple, maps to a node that is no constant)."""
+    out: dict[str, ast.AST] = {}
+
+    def bind(tg: ast.AST, v: ast.AST) -> None:
+        if is_self_attr(tg):
+            out[tg.attr] = v if tg.attr not in out else ast.Tuple(elts=[], ctx=ast.Load())  # type: ignore[attr-defined]
+        elif isinstance(tg, (ast.Tuple, ast.List)):
+            if isinstance(v, (ast.Tuple, ast.List)) and len(v.elts) == len(tg.elts) and not any(isinstance(x, ast.Starred) for x in list(tg.elts) + list(v.elts)):
+                for e, x in zip(tg.elts, v.elts):
+                    bind(e, x)
+            else:
+                for e in tg.elts:
+                    bind(e, ast.Tuple(elts=[], ctx=ast.Load()))
+
+    for s_ in walk_no_nested(fn):
+        if isinstance(s_, ast.Assign):
+            for tg in s_.targets:
+                bind(tg, s_.value)
+        elif isinstance(s_, ast.AnnAssign) and s_.value is not None:
+            bind(s_.target, s_.value)
+    return out
+
+
+def _folder_of(ctx: Ctx, fi: FuncInfo) -> t.Callable[[ast.AST], t.Any]:
+    """constant folding of module-level names as seen from the function's module."""
+    from ..fold import Folder
+
+    f = Folder(ctx.repo)
+    return lambda x: f.expr(fi.module, x)
+
+
+TERM_SAMPLES = [b"\r\n", b"\n", b"\r", b"", b"x", b"x\r\n", b"\r\n\r\n", b" \r\n", b"\n\r", b"0", b"\r\nx"]
+
+
+def _terminator_validated(cfg: CFG, tn: Node, sym: "H.LoopSym", in_loop: bool, fold: t.Callable[[ast.AST], t.Any] | None = None) -> tuple[bool, str, ast.AST | None]:
+    """the line read at node ``tn`` is checked: decided by following the CFG from the read for sample line values
+    (tests that mention the line are evaluated, any other test is followed on both edges): CRLF and LF must reach the
+    normal continuation (the exit or, inside the copy loop, the next iteration) without a raise, a bare CR may do either,
+    and every other value - the empty line of a truncated stream included - must end in `raise OSError` on every
+    path.  A test of the line outside the evaluable subset -> AnalysisError."""
     tcalls = [x for x in ast.walk(tn.ast) if sym.under_call(x, "readline")]  # type: ignore[arg-type]
-    okt = False
-    factt = f"`{tn.text()}`"
-    tests: list[tuple[Node, ast.AST]] = []
-    if tn.kind == "test":
-        tests = [(tn, tn.ast)]  # type: ignore[list-item]
-    elif isinstance(tn.ast, (ast.Assign, ast.AnnAssign)):
-        tgs = tn.ast.targets if isinstance(tn.ast, ast.Assign) else [tn.ast.target]
+    site = tcalls[0] if tcalls else tn.ast
+    var: str | None = None
+    a0 = tn.ast
+    if tn.kind == "stmt" and isinstance(a0, (ast.Assign, ast.AnnAssign)) and a0.value is not None:
+        tgs = a0.targets if isinstance(a0, ast.Assign) else [a0.target]
         if len(tgs) == 1 and isinstance(tgs[0], ast.Name):
-            vn = tgs[0].id
-            tests = [(x, x.ast) for x in cfg.tests() if x.kind == "test" and isinstance(x.ast, ast.Compare) and isinstance(x.ast.left, ast.Name) and x.ast.left.id == vn and cfg.node_dominates(tn, x)]  # type: ignore[misc]
-    for x, a in tests:
-        if not (isinstance(a, ast.Compare) and len(a.ops) == 1 and isinstance(a.ops[0], (ast.In, ast.NotIn, ast.Eq, ast.NotEq))):
-            continue
-        try:
-            allowed = H.ev(a.comparators[0], lambda y: (False, None))
-        except H.Unknown:
-            continue
-        allowed_set = set(allowed) if isinstance(allowed, (tuple, frozenset)) else {allowed}
-        bad_label = "T" if isinstance(a.ops[0], (ast.NotIn, ast.NotEq)) else "F"
-        starts = cfg.succ(x, bad_label)
-        r: set[int] = set()
-        for s in starts:
-            r |= cfg.reach(s)
-        raises = [n for n in cfg.nodes if n.id in r and isinstance(n.ast, ast.Raise)]
-        back = in_loop and any(n.id in r for n in cfg.nodes if n.kind == "join")
-        leaves = bool(starts) and cfg.exit.id not in r and not back and bool(raises) and all(astq.raised_name(n.ast) in OSERRORS for n in raises)  # type: ignore[arg-type]
-        only_nl = allowed_set <= LINE_TERMINATORS and {b"\r\n", b"\n"} <= allowed_set
-        factt = f"accepted terminators {sorted(allowed_set)} (CRLF and LF accepted, nothing but line terminators: {only_nl}); anything else raises OSError: {leaves}"
-        okt = only_nl and leaves
-        if okt:
-            break
-    return okt, factt, (tcalls[0] if tcalls else tn.ast)
+            var = tgs[0].id
+    for x in ast.walk(a0):  # type: ignore[arg-type]
+        if isinstance(x, ast.NamedExpr) and sym.under_call(x.value, "readline") and isinstance(x.target, ast.Name):
+            var = x.target.id
+    if tn.kind == "stmt" and var is None and not isinstance(a0, ast.Expr):
+        raise AnalysisError(f"readinto: the chunk terminator is read by `{tn.text()[:60]}`, which does not keep the line in a local")
+
+    def outcomes(line: bytes) -> set[str]:
+        def bind_at(n: Node) -> H.Binder:
+            def bind(x: ast.AST) -> tuple[bool, t.Any]:
+                if isinstance(x, ast.Name) and x.id == var:
+                    return True, line
+                if n is tn and (sym.under_call(x, "readline") or (isinstance(x, ast.NamedExpr) and sym.under_call(x.value, "readline"))):
+                    return True, line
+                if fold is not None and isinstance(x, (ast.Name, ast.Attribute)) and not (isinstance(x, ast.Name) and x.id == "self"):
+                    try:
+                        return True, fold(x)
+                    except Exception:
+                        return False, None
+                return False, None
+
+            return bind
+
+        out: set[str] = set()
+        seen: set[int] = set()
+        stack: list[Node] = [tn]
+        while stack:
+            n = stack.pop()
+            if n.id in seen:
+                continue
+            seen.add(n.id)
+            if n is not tn:
+                if n is cfg.exit:
+                    out.add("continues")
+                    continue
+                if n is cfg.raise_exit:
+                    continue
+                if n.kind == "join" and in_loop and isinstance(n.ast, (ast.While, ast.For)):
+                    out.add("continues")
+                    continue
+                if isinstance(n.ast, ast.Raise) and n.kind == "stmt":
+                    out.add(f"raise {astq.raised_name(n.ast)}")
+                    continue
+                if var is not None and n.kind == "stmt" and n.ast is not None and any(isinstance(x, ast.Name) and x.id == var and isinstance(x.ctx, ast.Store) for x in ast.walk(n.ast)):
+                    raise AnalysisError(f"readinto: the terminator line `{var}` is rebound by `{n.text()[:60]}` before it is checked on every path")
+            mentions = n.kind == "test" and n.ast is not None and (any(isinstance(x, ast.Name) and x.id == var for x in ast.walk(n.ast)) or (n is tn))
+            if mentions:
+                try:
+                    c = bool(H.ev(n.ast, bind_at(n)))  # type: ignore[arg-type]
+                except H.Unknown as e:
+                    raise AnalysisError(f"readinto: the test `{n.text()[:60]}` of the chunk terminator is outside the evaluable subset ({e})")
+                stack += [s_ for s_, l in n.succs if l == ("T" if c else "F")]
+            else:
+                stack += [s_ for s_, l in n.succs if l != "exc"]
+        return out
+
+    accepted, refused, wrong = [], [], []
+    for line in TERM_SAMPLES:
+        o = outcomes(line)
+        raises = {x for x in o if x.startswith("raise ")}
+        if "continues" in o and not raises:
+            accepted.append(line)
+        elif raises and "continues" not in o and all(x[len("raise "):] in OSERRORS for x in raises):
+            refused.append(line)
+        else:
+            wrong.append((line, sorted(o)))
+    only_nl = set(accepted) <= LINE_TERMINATORS and {b"\r\n", b"\n"} <= set(accepted)
+    factt = f"accepted terminators {sorted(accepted)} (CRLF and LF accepted, nothing but line terminators: {only_nl}); anything else raises OSError: {not wrong}" + (f"; {wrong[0][0]!r} -> {wrong[0][1]}" if wrong else "")
+    return only_nl and not wrong, factt, site
 
 
 def _terminator_helper(ctx: Ctx, fi: FuncInfo, sym: "H.LoopSym", cls: ClassInfo) -> None:
@@ -1557,34 +2465,93 @@ def _terminator_helper(ctx: Ctx, fi: FuncInfo, sym: "H.LoopSym", cls: ClassInfo)
         if n.id in again:
             raise AnalysisError(f"{fi.qualname}: the line read can execute more than once per call")
     for tn in rl:
-        okt, factt, site = _terminator_validated(hcfg, tn, sym, in_loop=False)
+        okt, factt, site = _terminator_validated(hcfg, tn, sym, in_loop=False, fold=_folder_of(ctx, fi))
         ctx.ob("R19.3", "a missing or wrong chunk terminator raises OSError", okt, factt, fi, site, "terminator validated")
     for r in astq.raises_of(fi.node):
         nm = astq.raised_name(r)
         ctx.ob("R19.3", "readinto reports malformed framing as OSError", nm in OSERRORS, f"`{norm(r)}` in {fi.name}", fi, r, f"raise {nm}")
 
 
-def _size_reader_rules(ctx: Ctx, lr: FuncInfo, under_attr: str) -> None:
+def _size_reader_rules(ctx: Ctx, lr: FuncInfo, under_attr: str, caller: FuncInfo, sym: "H.LoopSym") -> None:
     cfg = cfg_of(lr)
     rd = ReachingDefs(cfg, lr.params)
 
-    def covered(c: ast.AST) -> tuple[bool, str]:
+    def covered_in(cfg_: CFG, c: ast.AST) -> tuple[bool | None, str]:
+        """(True / False: a handler that covers ValueError exists and does / does not always raise OSError; None: no such handler)."""
         tr = astq.enclosing(c, (ast.Try,))
+        seen_handlers: list[list[str]] = []
         while isinstance(tr, ast.Try):
             if any(c is x for s in tr.body for x in ast.walk(s)):
                 for h in tr.handlers:
                     names = _handler_names(h)
                     if not set(names) & COVERS_VALUEERROR:
+                        seen_handlers.append(names)
                         continue
-                    hn = cfg.node_of(h)
-                    r = cfg.reach(hn) if hn is not None else set()
-                    raises = [n for n in cfg.nodes if n.id in r and isinstance(n.ast, ast.Raise)]
-                    if hn is not None and cfg.exit.id not in r and raises and all(astq.raised_name(n.ast) in OSERRORS for n in raises):  # type: ignore[arg-type]
+                    hn = cfg_.node_of(h)
+                    r = cfg_.reach(hn) if hn is not None else set()
+                    raises = [n for n in cfg_.nodes if n.id in r and isinstance(n.ast, ast.Raise)]
+                    if hn is not None and cfg_.exit.id not in r and not any(n.id in r for n in cfg_.nodes if n.kind == "join") and raises and all(astq.raised_name(n.ast) in OSERRORS for n in raises):  # type: ignore[arg-type]
                         return True, f"handler {names} re-raises as OSError"
                     return False, f"handler {names} does not always raise OSError"
-                return False, f"handlers {[_handler_names(h) for h in tr.handlers]} do not cover ValueError"
             tr = astq.enclosing(tr, (ast.Try,))
-        return False, "not inside a try"
+        return None, (f"handlers {seen_handlers} do not cover ValueError" if seen_handlers else "not inside a try")
+
+    def covered(c: ast.AST) -> tuple[bool, str]:
+        ok_, why_ = covered_in(cfg, c)
+        if ok_ is not None:
+            return ok_, why_
+        # not converted where it is raised: then every call of the reader must be converted by the caller
+        sites = [x for x in astq.calls(caller.node) if sym.is_header_read(x)]
+        ccfg = cfg_of(caller)
+        res_ = [covered_in(ccfg, x) for x in sites]
+        if sites and all(r_[0] is True for r_ in res_):
+            return True, f"{why_} in {lr.name}; around every call in {caller.name}: {res_[0][1]}"
+        return False, why_ + (f"; around the call in {caller.name}: {[r_[1] for r_ in res_ if r_[0] is not True][0]}" if sites else "")
+
+    def refused_by_caller() -> tuple[bool, str]:
+        """the size is checked where it arrives: followed from every `<target> = self.<reader>()` in the caller for sample
+        sizes - a negative size must end in `raise OSError` before the target is used, a size >= 0 must get through."""
+        ccfg = cfg_of(caller)
+        sites = [n for n in ccfg.nodes if n.kind == "stmt" and isinstance(n.ast, ast.Assign) and len(n.ast.targets) == 1 and sym.is_header_read(n.ast.value)]
+        if not sites:
+            return False, f"no `<target> = self.{lr.name}()` in {caller.name}"
+        for hn in sites:
+            tgt = norm(hn.ast.targets[0])  # type: ignore[union-attr]
+            is_t = lambda x, tgt=tgt: isinstance(x, (ast.Name, ast.Attribute)) and norm(x) == tgt  # noqa: E731
+            for size in (-255, -1, 0, 1, 255):
+                out: set[str] = set()
+                seen: set[int] = set()
+                stack = [s_ for s_, l in hn.succs if l != "exc"]
+                while stack:
+                    n = stack.pop()
+                    if n.id in seen:
+                        continue
+                    seen.add(n.id)
+                    if n is ccfg.exit or n.kind == "join" or n is hn:
+                        out.add("used")
+                        continue
+                    if n is ccfg.raise_exit:
+                        continue
+                    if isinstance(n.ast, ast.Raise) and n.kind == "stmt":
+                        out.add(f"raise {astq.raised_name(n.ast)}")
+                        continue
+                    if n.ast is not None and H.mentions(n.ast, is_t):
+                        if n.kind == "test":
+                            try:
+                                c = bool(H.ev(n.ast, lambda x, size=size: (True, size) if is_t(x) else (False, None)))
+                                stack += [s_ for s_, l in n.succs if l == ("T" if c else "F")]
+                                continue
+                            except H.Unknown:
+                                pass
+                        out.add("used")
+                        continue
+                    stack += [s_ for s_, l in n.succs if l != "exc"]
+                raises = {x for x in out if x.startswith("raise ")}
+                if size < 0 and not (raises and out == raises and all(x[len("raise "):] in OSERRORS for x in raises)):
+                    return False, f"in {caller.name} a size of {size} stored in `{tgt}` reaches {sorted(out)}"
+                if size >= 0 and "used" not in out:
+                    return False, f"in {caller.name} a size of {size} stored in `{tgt}` is refused: {sorted(out)}"
+        return True, f"checked in {caller.name}: negative sizes raise OSError before `{tgt}` is used"
 
     ints = [c for c in astq.calls(lr.node) if dotted(c.func) == "int"]
     ctx.floor("R19.3", "int() parses in the chunk-size reader", len(ints), 1)
@@ -1610,11 +2577,17 @@ def _size_reader_rules(ctx: Ctx, lr: FuncInfo, under_attr: str) -> None:
         rn = cfg.node_of(r)
         assert rn is not None
         if not isinstance(r.value, ast.Name):
-            ctx.ob("R19.3", "a negative chunk size raises OSError", False, f"`{norm(r)}` returns an unchecked expression", lr, r, "negative size refused")
+            okc, whyc = refused_by_caller() if isinstance(r.value, ast.Call) and dotted(r.value.func) == "int" else (False, "")
+            ctx.ob("R19.3", "a negative chunk size raises OSError; zero and positive sizes are returned as parsed", okc, f"`{norm(r)}` returns an unchecked expression; {whyc}", lr, r, "negative size refused")
             continue
         v = r.value.id
         is_v = lambda x, v=v: isinstance(x, ast.Name) and x.id == v  # noqa: E731
         adm, atoms = H.admitted(cfg.guards(rn), is_v, [-255, -1, 0, 1, 255, 1 << 40])
+        if not atoms and all(d.value is not None and isinstance(d.value, ast.Call) and dotted(d.value.func) == "int" for d in rd.reaching(rn, v)):
+            # unchecked in the reader: the check may have moved to where the size arrives
+            okc, whyc = refused_by_caller()
+            ctx.ob("R19.3", "a negative chunk size raises OSError; zero and positive sizes are returned as parsed", okc, f"`{v}` is returned unchecked by {lr.name}; {whyc}", lr, r, "negative size refused")
+            continue
         refusing = []
         for t_, l in atoms:
             other = "F" if l == "T" else "T"
